@@ -6,20 +6,32 @@
 //! sub-messages, so duplicate-id mints, mints after an ownership hand-over etc. can be attempted. The stubs also
 //! implement `ReceiveNft` (refusing when the payload is `fail`) so `SendNft` can be exercised both ways.
 //!
-//! Protocol: see lean/LaunchpadModel/Driver/C09.lean.
+//! Protocol: see lean/LaunchpadModel/Driver/C09.lean. Output lines are `ok|err <primary> ## <drift>`: only `primary`
+//! (what C09 constrains + the mechanism state of the theorems) decides agreement with the model.
+//!
+//! Round 3:
+//! * observations come from queries and the crates' TYPED state accessors (`cw2::get_contract_version`,
+//!   `cw_ownable::get_ownership`, `Sg721Contract::default().frozen_collection_info`, `…parent.operators`), not raw keys;
+//! * monitors compare against GHOST bookkeeping the harness derives from what it sent (who is the minter, who is the
+//!   creator, which freezes were accepted, whom each nt token was minted to), not against the contract's own answers;
+//! * the message surface is enumerated at RUN TIME from the crates' JSON schemas; unknown variants are sent as raw JSON
+//!   (`raw v=<variant>`) under the same monitors; nothing here stops compiling when a variant is added;
+//! * migrations: `setver v=a.b.c` rewrites the stored cw2 version (a collection instantiated by an older release),
+//!   `migrate to=<kind>` migrates to that collection's code.
 use std::collections::{BTreeMap, BTreeSet, HashMap};
 
 use cosmwasm_schema::cw_serde;
-use cosmwasm_std::testing::{MockApi, MockQuerier};
+use cosmwasm_std::testing::{MockApi, MockQuerier, MockStorage};
 use cosmwasm_std::{
-    to_json_binary, Addr, Binary, BlockInfo, Coin, ContractInfo, Decimal, Deps, DepsMut, Empty, Env, MessageInfo, QuerierWrapper, Response,
-    StdError, StdResult, Timestamp, Uint128, WasmMsg,
+    to_json_binary, Addr, Binary, BlockInfo, Coin, ContractInfo, Decimal, Deps, DepsMut, Empty, Env, MessageInfo, Order, QuerierWrapper, Reply,
+    Response, StdError, StdResult, Storage, SubMsg, Timestamp, Uint128, WasmMsg,
 };
 use cw_multi_test::{BankSudo, ContractWrapper, Executor, SudoMsg};
+use cw_storage_plus::Item;
 use lp_harness::boxes::{self, custom_mock_app, App, Boxed};
 use lp_harness::world::*;
 use lp_harness::*;
-use serde_json::{json, Value};
+use serde_json::{json, Map, Value};
 
 // ------------------------------------------------------------------------------------------------ stub minter
 
@@ -33,15 +45,17 @@ pub enum StubExec {
     ReceiveNft(cw721::Cw721ReceiveMsg),
 }
 
+/// address of the contract the stub instantiated last (from the standard instantiate reply data, not from event names)
+const LAST_INST: Item<String> = Item::new("last_inst");
+
 fn stub_instantiate(_d: DepsMut, _e: Env, _i: MessageInfo, _m: Empty) -> StdResult<Response> {
     Ok(Response::new())
 }
 fn stub_execute(_d: DepsMut, _e: Env, _i: MessageInfo, m: StubExec) -> StdResult<Response> {
     match m {
         StubExec::Forward { to, msg, funds } => Ok(Response::new().add_message(WasmMsg::Execute { contract_addr: to, msg, funds })),
-        StubExec::Inst { code_id, msg, admin, funds } => {
-            Ok(Response::new().add_message(WasmMsg::Instantiate { admin, code_id, msg, funds, label: "collection".into() }))
-        }
+        StubExec::Inst { code_id, msg, admin, funds } => Ok(Response::new()
+            .add_submessage(SubMsg::reply_on_success(WasmMsg::Instantiate { admin, code_id, msg, funds, label: "collection".into() }, 1))),
         StubExec::ReceiveNft(r) => {
             if r.msg.as_slice() == b"fail" {
                 Err(StdError::generic_err("stub refuses this token"))
@@ -51,11 +65,16 @@ fn stub_execute(_d: DepsMut, _e: Env, _i: MessageInfo, m: StubExec) -> StdResult
         }
     }
 }
-fn stub_query(_d: Deps, _e: Env, _m: Empty) -> StdResult<Binary> {
-    to_json_binary(&Empty {})
+fn stub_reply(d: DepsMut, _e: Env, m: Reply) -> StdResult<Response> {
+    let r = cw_utils::parse_reply_instantiate_data(m).map_err(|e| StdError::generic_err(e.to_string()))?;
+    LAST_INST.save(d.storage, &r.contract_address)?;
+    Ok(Response::new())
+}
+fn stub_query(d: Deps, _e: Env, _m: Empty) -> StdResult<Binary> {
+    to_json_binary(&LAST_INST.may_load(d.storage)?)
 }
 fn stub_box() -> Boxed {
-    Box::new(ContractWrapper::new(stub_execute, stub_instantiate, stub_query))
+    Box::new(ContractWrapper::new(stub_execute, stub_instantiate, stub_query).with_reply(stub_reply))
 }
 
 // ------------------------------------------------------------------------------------------------ naming
@@ -69,20 +88,48 @@ const BANK: u64 = 60;
 const INVALID: [u64; 4] = [900, 901, 902, 903];
 const STUB_A: u64 = 1000;
 const STUB_B: u64 = 1001;
+/// the collection itself (model: any id ≥ 1000 is a contract)
+const COLL: u64 = 1002;
 const DAY_NS: u64 = 86_400_000_000_000;
 const T0: u64 = 1_700_000_000_000_000_000;
+const KINDS: [&str; 4] = ["base", "nt", "updatable", "onchain"];
 
-/// ids 900..=999 are malformed address strings (rejected by `addr_validate`); everything else as in `world::addr`
-fn my_addr(id: u64) -> String {
-    if (900..1000).contains(&id) {
-        match id % 4 {
-            0 => "ab".to_string(),                 // too short
-            1 => format!("Acct{:05}", id),         // not normalised (upper case)
-            2 => "x".repeat(100),                  // too long
-            _ => String::new(),                    // empty
+/// Model ids <-> address strings. The three contracts of a case are mapped by what they ARE (stub A, stub B, the
+/// collection), not by how cw-multi-test happens to number them. Ids 900..=999 are malformed address strings
+/// (rejected by `addr_validate`); everything else as in `world::addr`.
+#[derive(Clone, Default, Debug)]
+struct Names {
+    sa: String,
+    sb: String,
+    coll: Option<String>,
+}
+impl Names {
+    fn s(&self, id: u64) -> String {
+        match id {
+            STUB_A => self.sa.clone(),
+            STUB_B => self.sb.clone(),
+            COLL => self.coll.clone().unwrap_or_else(|| addr(COLL)),
+            n if (900..1000).contains(&n) => match n % 4 {
+                0 => "ab".to_string(),         // too short
+                1 => format!("Acct{:05}", n),  // not normalised (upper case)
+                2 => "x".repeat(100),          // too long
+                _ => String::new(),            // empty
+            },
+            n => addr(n),
         }
-    } else {
-        addr(id)
+    }
+    fn id(&self, s: &str) -> u64 {
+        if s == self.sa {
+            STUB_A
+        } else if s == self.sb {
+            STUB_B
+        } else if Some(s) == self.coll.as_deref() {
+            COLL
+        } else if let Some(k) = s.strip_prefix("acct").and_then(|k| k.parse::<u64>().ok()) {
+            k
+        } else {
+            addr_id(s)
+        }
     }
 }
 
@@ -138,8 +185,27 @@ fn exp_back(e: &cw_utils::Expiration) -> String {
         cw_utils::Expiration::AtTime(t) => format!("t{}", t.nanos()),
     }
 }
+/// `Expiration::is_expired` transcribed on the protocol's own notation (`-`/`n` never, `h<N>`, `t<N>`)
+fn exp_expired(e: &str, h: u64, t: u64) -> bool {
+    match e {
+        "-" | "n" => false,
+        x if x.starts_with('h') => x[1..].parse::<u64>().map(|v| v <= h).unwrap_or(false),
+        x if x.starts_with('t') => x[1..].parse::<u64>().map(|v| v <= t).unwrap_or(false),
+        _ => false,
+    }
+}
 fn share_str(atomics: u128) -> String {
     Decimal::new(Uint128::new(atomics)).to_string()
+}
+fn kind_of_name(n: &str) -> String {
+    match n {
+        "crates.io:sg721-base" | "sg721-base" => "base",
+        "crates.io:sg721-nt" => "nt",
+        "crates.io:sg721-updatable" | "sg721-updatable" => "updatable",
+        "crates.io:sg721-metadata-onchain" => "onchain",
+        x => x,
+    }
+    .to_string()
 }
 
 // ------------------------------------------------------------------------------------------------ observations
@@ -152,9 +218,11 @@ struct Tok {
     ext: u64,
     approvals: Vec<(u64, String)>,
 }
+type Editable = (u64, (u64, u64), u64, Option<u64>, Option<bool>, Option<(u64, u128)>);
 #[derive(Clone, PartialEq, Debug, Default)]
 struct Obs {
     kind: String,
+    ver: String,
     owner: Option<u64>,
     pending: Option<u64>,
     pexp: Option<String>,
@@ -172,23 +240,26 @@ struct Obs {
     ops: Vec<(u64, u64, String)>,
     fm: bool,
     ue: bool,
-    /// `Minter {}` query (monitors use this, not the raw ownership item)
+    /// `Minter {}` query
     minter_q: Option<u64>,
 }
 impl Obs {
     fn tok(&self, id: u64) -> Option<&Tok> {
         self.toks.iter().find(|t| t.id == id)
     }
-    fn editable(&self) -> (u64, (u64, u64), u64, Option<u64>, Option<bool>, Option<(u64, u128)>) {
+    fn editable(&self) -> Editable {
         (self.creator, self.desc, self.img, self.ext, self.ec, self.roy)
     }
-    fn render(&self) -> String {
-        let toks: Vec<String> = self
+    /// `<primary> ## <drift>`; `racc` = the implementation's verdict on the royalty rules for the line just executed
+    fn render(&self, racc: &str) -> String {
+        let dash = |v: Vec<String>, sep: &str| if v.is_empty() { "-".to_string() } else { v.join(sep) };
+        let toks: Vec<String> = self.toks.iter().map(|t| format!("{}/{}/{}", t.id, t.owner, fmt_opt(&t.uri))).collect();
+        let toksx: Vec<String> = self
             .toks
             .iter()
             .map(|t| {
                 let aps: Vec<String> = t.approvals.iter().map(|(s, e)| format!("{s}@{e}")).collect();
-                format!("{}/{}/{}/{}/{}", t.id, t.owner, fmt_opt(&t.uri), t.ext, if aps.is_empty() { "-".into() } else { aps.join("+") })
+                format!("{}/{}/{}", t.id, t.ext, dash(aps, "+"))
             })
             .collect();
         let ops: Vec<String> = self.ops.iter().map(|(o, p, e)| format!("{o}>{p}@{e}")).collect();
@@ -198,26 +269,29 @@ impl Obs {
             Some(false) => "0",
         };
         format!(
-            "k={} own={}/{}/{} fz={} rua={} cr={} desc={}:{} img={} ext={} ec={} stt={} roy={} n={} toks={} ops={} fm={} ue={}",
+            "k={} own={}/{}/{} fz={} cr={} desc={}:{} img={} ext={} ec={} roy={} n={} toks={} fm={} ue={} ## ver={} rua={} stt={} tx={} ops={} racc={}",
             self.kind,
             fmt_opt(&self.owner),
             fmt_opt(&self.pending),
             self.pexp.clone().unwrap_or("-".into()),
             self.fz as u8,
-            self.rua,
             self.creator,
             self.desc.0,
             self.desc.1,
             self.img,
             fmt_opt(&self.ext),
             ob(&self.ec),
-            fmt_opt(&self.stt),
             self.roy.map(|(p, s)| format!("{p}:{s}")).unwrap_or("-".into()),
             self.n,
-            if toks.is_empty() { "-".into() } else { toks.join(";") },
-            if ops.is_empty() { "-".into() } else { ops.join(",") },
+            dash(toks, ";"),
             self.fm as u8,
-            self.ue as u8
+            self.ue as u8,
+            self.ver,
+            self.rua,
+            fmt_opt(&self.stt),
+            dash(toksx, ";"),
+            dash(ops, ","),
+            racc
         )
     }
 }
@@ -227,8 +301,7 @@ impl Obs {
 struct World {
     app: App,
     codes: BTreeMap<&'static str, u64>,
-    #[allow(dead_code)]
-    stub_code: u64,
+    names: Names,
     coll: Option<Addr>,
     urls: HashMap<String, u64>,
 }
@@ -249,9 +322,8 @@ impl World {
         }
         let sa = app.instantiate_contract(stub_code, a(ADMIN), &Empty {}, &[], "stub-a", None).unwrap();
         let sb = app.instantiate_contract(stub_code, a(ADMIN), &Empty {}, &[], "stub-b", None).unwrap();
-        assert_eq!(sa.as_str(), addr(STUB_A));
-        assert_eq!(sb.as_str(), addr(STUB_B));
-        let mut w = World { app, codes, stub_code, coll: None, urls: HashMap::new() };
+        let names = Names { sa: sa.to_string(), sb: sb.to_string(), coll: None };
+        let mut w = World { app, codes, names, coll: None, urls: HashMap::new() };
         w.set_block(1, 1); // the model driver's default block
         for id in 0..60 {
             w.urls.insert(url_str(id), id);
@@ -261,6 +333,9 @@ impl World {
 
     fn url_id(&self, s: &str) -> u64 {
         *self.urls.get(s).unwrap_or(&999_999)
+    }
+    fn ad(&self, id: u64) -> Addr {
+        Addr::unchecked(self.names.s(id))
     }
 
     fn set_block(&mut self, h: u64, t: u64) {
@@ -272,38 +347,43 @@ impl World {
         self.fund(sender, funds);
         if sender == STUB_A || sender == STUB_B {
             let fwd = StubExec::Forward { to: target.to_string(), msg: to_json_binary(msg).unwrap(), funds: funds.to_vec() };
-            self.app.execute_contract(a(BANK), a(sender), &fwd, funds).is_ok()
+            self.app.execute_contract(a(BANK), self.ad(sender), &fwd, funds).is_ok()
         } else {
-            self.app.execute_contract(a(sender), target.clone(), msg, funds).is_ok()
+            self.app.execute_contract(self.ad(sender), target.clone(), msg, funds).is_ok()
         }
     }
 
     /// environment assumption: whoever signs a message owns the coins attached to it
     fn fund(&mut self, sender: u64, funds: &[Coin]) {
         if !funds.is_empty() {
-            let payer = if sender == STUB_A || sender == STUB_B { BANK } else { sender };
-            self.app.sudo(SudoMsg::Bank(BankSudo::Mint { to_address: addr(payer), amount: funds.to_vec() })).unwrap();
+            let payer = if sender == STUB_A || sender == STUB_B { addr(BANK) } else { self.names.s(sender) };
+            let _ = self.app.sudo(SudoMsg::Bank(BankSudo::Mint { to_address: payer, amount: funds.to_vec() }));
         }
+    }
+
+    fn set_coll(&mut self, ad: Addr) {
+        self.names.coll = Some(ad.to_string());
+        self.coll = Some(ad);
     }
 
     fn instantiate(&mut self, kind: &str, sender: u64, msg: &Value, funds: &[Coin]) -> bool {
         self.fund(sender, funds);
         let code_id = self.codes[kind];
         if sender == STUB_A || sender == STUB_B {
+            let stub = self.ad(sender);
             let m = StubExec::Inst { code_id, msg: to_json_binary(msg).unwrap(), admin: Some(addr(ADMIN)), funds: funds.to_vec() };
-            match self.app.execute_contract(a(BANK), a(sender), &m, funds) {
-                Ok(res) => {
-                    let ev = res.events.iter().find(|e| e.ty == "instantiate").expect("instantiate event");
-                    let ad = ev.attributes.iter().find(|x| x.key == "_contract_address").expect("address attr").value.clone();
-                    self.coll = Some(Addr::unchecked(ad));
+            match self.app.execute_contract(a(BANK), stub.clone(), &m, funds) {
+                Ok(_) => {
+                    let last: Option<String> = self.app.wrap().query_wasm_smart(stub, &Empty {}).expect("stub query");
+                    self.set_coll(Addr::unchecked(last.expect("stub recorded the instantiated address")));
                     true
                 }
                 Err(_) => false,
             }
         } else {
-            match self.app.instantiate_contract(code_id, a(sender), msg, funds, "collection", Some(addr(ADMIN))) {
+            match self.app.instantiate_contract(code_id, self.ad(sender), msg, funds, "collection", Some(addr(ADMIN))) {
                 Ok(ad) => {
-                    self.coll = Some(ad);
+                    self.set_coll(ad);
                     true
                 }
                 Err(_) => false,
@@ -311,45 +391,48 @@ impl World {
         }
     }
 
-    fn raw(&self, key: &[u8]) -> Option<Vec<u8>> {
-        let c = self.coll.as_ref()?;
-        self.app.wrap().query_wasm_raw(c.to_string(), key.to_vec()).ok().flatten()
-    }
-    fn raw_json(&self, key: &[u8]) -> Option<Value> {
-        self.raw(key).and_then(|v| serde_json::from_slice(&v).ok())
-    }
     fn q(&self, msg: Value) -> Value {
         let c = self.coll.as_ref().unwrap();
         self.app.wrap().query_wasm_smart::<Value>(c.to_string(), &msg).unwrap_or_else(|e| panic!("query {msg} failed: {e}"))
     }
 
+    /// (contract name, version) of the cw2 record, through cw2's own accessor
+    fn cw2(&self) -> Option<(String, String)> {
+        let c = self.coll.as_ref()?;
+        let st = self.app.contract_storage(c);
+        cw2::get_contract_version(&*st).ok().map(|v| (v.contract, v.version))
+    }
+
     fn observe(&self) -> Option<Obs> {
         let coll = self.coll.as_ref()?;
+        let nm = &self.names;
         let mut o = Obs::default();
-        let cw2 = self.raw_json(b"contract_info").expect("cw2");
-        o.kind = match cw2["contract"].as_str().unwrap() {
-            "crates.io:sg721-base" => "base",
-            "crates.io:sg721-nt" => "nt",
-            "crates.io:sg721-updatable" => "updatable",
-            "crates.io:sg721-metadata-onchain" => "onchain",
-            x => x,
+        let (cname, cver) = self.cw2().expect("cw2 record");
+        o.kind = kind_of_name(&cname);
+        o.ver = cver;
+        {
+            // typed state accessors of the crates (no raw keys): cw_ownable, sg721-base's items, cw721-base's operators map
+            let st = self.app.contract_storage(coll);
+            let own = cw_ownable::get_ownership(&*st).expect("cw_ownable ownership");
+            o.owner = own.owner.as_ref().map(|a| nm.id(a.as_str()));
+            o.pending = own.pending_owner.as_ref().map(|a| nm.id(a.as_str()));
+            o.pexp = own.pending_expiry.as_ref().map(exp_back);
+            let c = sg721_base::Sg721Contract::<cw721_base::Extension>::default();
+            o.fz = c.frozen_collection_info.load(&*st).expect("frozen_collection_info");
+            o.rua = c.royalty_updated_at.load(&*st).expect("royalty_updated_at").nanos();
+            for r in c.parent.operators.range(&*st, None, None, Order::Ascending) {
+                let ((ow, op), e) = r.expect("operators entry");
+                o.ops.push((nm.id(ow.as_str()), nm.id(op.as_str()), exp_back(&e)));
+            }
+            o.ops.sort();
         }
-        .to_string();
-        let own = self.raw_json(b"ownership").expect("ownership");
-        let oa = |v: &Value| v.as_str().map(addr_id);
-        o.owner = oa(&own["owner"]);
-        o.pending = oa(&own["pending_owner"]);
-        o.pexp = if own["pending_expiry"].is_null() {
-            None
-        } else {
-            Some(exp_back(&serde_json::from_value::<cw_utils::Expiration>(own["pending_expiry"].clone()).unwrap()))
-        };
-        o.fz = self.raw_json(b"frozen_collection_info").and_then(|v| v.as_bool()).expect("frozen flag");
-        o.rua = self.raw_json(b"royalty_updated_at").and_then(|v| v.as_str().map(|s| s.parse::<u64>().unwrap())).expect("rua");
-        o.fm = self.raw_json(b"frozen_token_metadata").and_then(|v| v.as_bool()).unwrap_or(false);
-        o.ue = self.raw_json(b"enable_updatable").and_then(|v| v.as_bool()).unwrap_or(false);
+        // the two sg721-updatable flags through its queries (they exist only while the contract runs that code)
+        if o.kind == "updatable" {
+            o.fm = self.q(json!({"freeze_token_metadata": {}}))["frozen"].as_bool().expect("FreezeTokenMetadata query");
+            o.ue = self.q(json!({"enable_updatable": {}}))["enabled"].as_bool().expect("EnableUpdatable query");
+        }
         let ci = self.q(json!({"collection_info": {}}));
-        o.creator = addr_id(ci["creator"].as_str().unwrap());
+        o.creator = nm.id(ci["creator"].as_str().unwrap());
         o.desc = desc_back(ci["description"].as_str().unwrap());
         o.img = self.url_id(ci["image"].as_str().unwrap());
         o.ext = ci["external_link"].as_str().map(|s| self.url_id(s));
@@ -359,11 +442,11 @@ impl World {
             None
         } else {
             let sh: Decimal = ci["royalty_info"]["share"].as_str().unwrap().parse().unwrap();
-            Some((addr_id(ci["royalty_info"]["payment_address"].as_str().unwrap()), sh.atomics().u128()))
+            Some((nm.id(ci["royalty_info"]["payment_address"].as_str().unwrap()), sh.atomics().u128()))
         };
         o.n = self.q(json!({"num_tokens": {}}))["count"].as_u64().unwrap();
-        o.minter_q = self.q(json!({"minter": {}}))["minter"].as_str().map(addr_id);
-        // all tokens, paged
+        o.minter_q = self.q(json!({"minter": {}}))["minter"].as_str().map(|s| nm.id(s));
+        // all tokens, paged until an empty page (whatever the contract's page-size cap is)
         let mut ids: Vec<String> = vec![];
         let mut after: Option<String> = None;
         loop {
@@ -373,69 +456,257 @@ impl World {
                 break;
             }
             after = page.last().cloned();
-            let full = page.len() == 100;
             ids.extend(page);
-            if !full {
-                break;
-            }
         }
         for tid in ids {
             let ow = self.q(json!({"owner_of": {"token_id": tid, "include_expired": true}}));
             let ni = self.q(json!({"nft_info": {"token_id": tid}}));
-            let approvals = ow["approvals"]
+            let mut approvals: Vec<(u64, String)> = ow["approvals"]
                 .as_array()
                 .unwrap()
                 .iter()
-                .map(|ap| {
-                    (addr_id(ap["spender"].as_str().unwrap()), exp_back(&serde_json::from_value::<cw_utils::Expiration>(ap["expires"].clone()).unwrap()))
-                })
+                .map(|ap| (nm.id(ap["spender"].as_str().unwrap()), exp_back(&serde_json::from_value::<cw_utils::Expiration>(ap["expires"].clone()).unwrap())))
                 .collect();
+            approvals.sort();
             let ext = ni["extension"]["name"].as_str().and_then(|s| s.strip_prefix('n')).and_then(|n| n.parse().ok()).unwrap_or(0);
             o.toks.push(Tok {
                 id: tid.parse().unwrap_or(999_999),
-                owner: addr_id(ow["owner"].as_str().unwrap()),
+                owner: nm.id(ow["owner"].as_str().unwrap()),
                 uri: ni["token_uri"].as_str().map(uri_back),
                 ext,
                 approvals,
             });
         }
         o.toks.sort_by_key(|t| t.id);
-        // operators: raw dump of the `operators` map: [0,9]"operators"[0,len]owner operator
-        let pre: Vec<u8> = [&[0u8, 9][..], b"operators"].concat();
-        for (k, v) in self.app.dump_wasm_raw(coll) {
-            if k.len() > pre.len() + 2 && k[..pre.len()] == pre[..] {
-                let rest = &k[pre.len()..];
-                let l = ((rest[0] as usize) << 8) | rest[1] as usize;
-                let owner = std::str::from_utf8(&rest[2..2 + l]).unwrap();
-                let oper = std::str::from_utf8(&rest[2 + l..]).unwrap();
-                let e: cw_utils::Expiration = serde_json::from_slice(&v).unwrap();
-                o.ops.push((addr_id(owner), addr_id(oper), exp_back(&e)));
-            }
-        }
-        o.ops.sort();
         Some(o)
     }
 }
 
-/// JSON of the message for protocol line `line`, as a client of the collection kind `cur_kind` would encode it,
-/// plus the witness fields for the model (`recv=`, `iv=`/`ev=`).
-fn build_msg(op: &str, line: &str, cur_kind: &str) -> Option<(Value, String)> {
-    let id = || kv_u64(line, "id").unwrap().to_string();
-    let mut witness = String::new();
-    let nt = cur_kind == "nt";
-    let msg: Value = match op {
-        "transfer" => json!({"transfer_nft": {"recipient": my_addr(kv_u64(line, "to").unwrap()), "token_id": id()}}),
+// ------------------------------------------------------------------------------------------------ message surface (run time)
+
+/// JSON schema of the `ExecuteMsg` enum the entry point of collection `kind` deserialises
+fn exec_schema(kind: &str) -> Value {
+    use cosmwasm_schema::schema_for;
+    let r = match kind {
+        "base" => schema_for!(sg721::ExecuteMsg<cw721_base::Extension, Empty>),
+        "onchain" => schema_for!(sg721::ExecuteMsg<sg_metadata::Metadata, Empty>),
+        "nt" => schema_for!(sg721_nt::msg::ExecuteMsg<cw721_base::Extension>),
+        _ => schema_for!(sg721_updatable::msg::ExecuteMsg<cw721_base::Extension, Empty>),
+    };
+    serde_json::to_value(&r).expect("schema to json")
+}
+
+/// (variant name in snake case, schema of its payload; None for a unit variant serialised as a bare string)
+fn schema_variants(root: &Value) -> Vec<(String, Option<Value>)> {
+    let mut out = vec![];
+    let mut alts: Vec<Value> = vec![];
+    for k in ["oneOf", "anyOf"] {
+        if let Some(a) = root[k].as_array() {
+            alts.extend(a.iter().cloned());
+        }
+    }
+    if alts.is_empty() {
+        alts.push(root.clone());
+    }
+    for alt in alts {
+        if let Some(en) = alt["enum"].as_array() {
+            for e in en {
+                if let Some(s) = e.as_str() {
+                    out.push((s.to_string(), None));
+                }
+            }
+        } else if let Some(req) = alt["required"].as_array() {
+            if let Some(name) = req.first().and_then(|x| x.as_str()) {
+                out.push((name.to_string(), Some(alt["properties"][name].clone())));
+            }
+        }
+    }
+    out.sort_by(|a, b| a.0.cmp(&b.0));
+    out.dedup_by(|a, b| a.0 == b.0);
+    out
+}
+
+/// minimal JSON value for a schema: token ids = "1" (exists in every scenario that sends raw messages), address-like strings = holder 21,
+/// other strings / integers = k, options = null
+fn fill(s: &Value, defs: &Value, k: u64, hint: &str, depth: u32) -> Value {
+    if depth > 8 {
+        return Value::Null;
+    }
+    if let Some(r) = s["$ref"].as_str() {
+        let name = r.rsplit('/').next().unwrap_or("");
+        return fill(&defs[name], defs, k, hint, depth + 1);
+    }
+    if let Some(a) = s["allOf"].as_array() {
+        if let Some(f) = a.first() {
+            return fill(f, defs, k, hint, depth + 1);
+        }
+    }
+    for key in ["anyOf", "oneOf"] {
+        if let Some(a) = s[key].as_array() {
+            if a.iter().any(|x| x["type"] == "null") {
+                return Value::Null;
+            }
+            if let Some(f) = a.first() {
+                if let Some(req) = f["required"].as_array().and_then(|r| r.first()).and_then(|x| x.as_str()) {
+                    let mut m = Map::new();
+                    m.insert(req.to_string(), fill(&f["properties"][req], defs, k, req, depth + 1));
+                    return Value::Object(m);
+                }
+                return fill(f, defs, k, hint, depth + 1);
+            }
+        }
+    }
+    if let Some(en) = s["enum"].as_array() {
+        return en.first().cloned().unwrap_or(Value::Null);
+    }
+    let ty: String = match &s["type"] {
+        Value::String(t) => t.clone(),
+        Value::Array(ts) => {
+            if ts.iter().any(|t| t == "null") {
+                return Value::Null;
+            }
+            ts.first().and_then(|t| t.as_str()).unwrap_or("").to_string()
+        }
+        _ => String::new(),
+    };
+    match ty.as_str() {
+        "integer" | "number" => json!(k),
+        "string" => {
+            let h = hint.to_lowercase();
+            if h.contains("token_id") || h == "id" {
+                json!("1")
+            } else if ["addr", "recipient", "contract", "owner", "sender", "admin", "spender", "operator", "creator", "minter", "to", "new_"].iter().any(|w| h.contains(w)) {
+                json!(addr(21))
+            } else {
+                json!(k.to_string())
+            }
+        }
+        "boolean" => json!(k % 2 == 1),
+        "array" => json!([]),
+        "object" => {
+            let mut m = Map::new();
+            if let Some(req) = s["required"].as_array() {
+                for r in req.iter().filter_map(|x| x.as_str()) {
+                    m.insert(r.to_string(), fill(&s["properties"][r], defs, k, r, depth + 1));
+                }
+            }
+            Value::Object(m)
+        }
+        _ => Value::Null,
+    }
+}
+
+/// protocol op(s) of a schema variant this file has a NAMED op for
+fn known_variant(name: &str) -> Option<&'static [&'static str]> {
+    Some(match name {
+        "transfer_nft" => &["transfer"],
+        "send_nft" => &["send"],
+        "approve" => &["approve"],
+        "revoke" => &["revoke"],
+        "approve_all" => &["approve_all"],
+        "revoke_all" => &["revoke_all"],
+        "mint" => &["mint"],
+        "burn" => &["burn"],
+        "extension" => &["extension"],
+        "update_collection_info" => &["uci"],
+        "update_start_trading_time" => &["ustt"],
+        "freeze_collection_info" => &["freeze"],
+        "update_ownership" => &["own_transfer", "own_accept", "own_renounce"],
+        "freeze_token_metadata" => &["freeze_meta"],
+        "update_token_metadata" => &["utm"],
+        "enable_updatable" => &["enable"],
+        _ => return None,
+    })
+}
+
+/// What the harness learned about the four message surfaces at start-up.
+#[derive(Clone, Default)]
+struct Surface {
+    schema: BTreeMap<String, Value>,
+    /// per kind: variants the protocol has no name for
+    unknown: BTreeMap<String, Vec<String>>,
+    /// per kind: name of the field carrying the update in `update_collection_info` (`collection_info` / `new_collection_info`)
+    uci_field: BTreeMap<String, String>,
+    /// per kind: is `freeze_collection_info` a unit variant (bare JSON string)?
+    freeze_unit: BTreeMap<String, bool>,
+}
+impl Surface {
+    fn load() -> Surface {
+        let mut s = Surface::default();
+        for kind in KINDS {
+            let root = exec_schema(kind);
+            let vars = schema_variants(&root);
+            s.unknown.insert(kind.into(), vars.iter().filter(|(n, _)| known_variant(n).is_none()).map(|(n, _)| n.clone()).collect());
+            let uf = vars
+                .iter()
+                .find(|(n, _)| n == "update_collection_info")
+                .and_then(|(_, p)| p.as_ref())
+                .and_then(|p| p["required"].as_array().and_then(|r| r.first()).and_then(|x| x.as_str()).map(String::from))
+                .unwrap_or_else(|| "collection_info".into());
+            s.uci_field.insert(kind.into(), uf);
+            s.freeze_unit.insert(kind.into(), vars.iter().any(|(n, p)| n == "freeze_collection_info" && p.is_none()));
+            s.schema.insert(kind.into(), root);
+        }
+        s
+    }
+    /// raw message for schema variant `name` of collection `kind` (minimal arguments); `{name: {}}` when the kind has no such variant
+    fn raw_msg(&self, kind: &str, name: &str, k: u64) -> Value {
+        let root = &self.schema[kind];
+        match schema_variants(root).into_iter().find(|(n, _)| n == name) {
+            Some((n, None)) => Value::String(n),
+            Some((n, Some(p))) => {
+                let mut m = Map::new();
+                m.insert(n.clone(), fill(&p, &root["definitions"], k, &n, 0));
+                Value::Object(m)
+            }
+            None => {
+                let mut m = Map::new();
+                m.insert(name.to_string(), json!({}));
+                Value::Object(m)
+            }
+        }
+    }
+}
+
+/// witness fields of a message line that depend on the line alone (`recv=`, `iv=`/`ev=`)
+fn line_witness(op: &str, line: &str) -> String {
+    match op {
         "send" => {
             let to = kv_u64(line, "to").unwrap();
             let fail = kv_u64(line, "payload").unwrap() == 0;
-            let recv = (to == STUB_A || to == STUB_B) && !fail;
-            witness = format!(" recv={}", recv as u8);
-            json!({"send_nft": {"contract": my_addr(to), "token_id": id(), "msg": Binary::from(if fail { &b"fail"[..] } else { &b"fine"[..] })}})
+            format!(" recv={}", ((to == STUB_A || to == STUB_B) && !fail) as u8)
         }
-        "approve" => json!({"approve": {"spender": my_addr(kv_u64(line, "sp").unwrap()), "token_id": id(), "expires": exp_json(kv(line, "exp").unwrap())}}),
-        "revoke" => json!({"revoke": {"spender": my_addr(kv_u64(line, "sp").unwrap()), "token_id": id()}}),
-        "approve_all" => json!({"approve_all": {"operator": my_addr(kv_u64(line, "op").unwrap()), "expires": exp_json(kv(line, "exp").unwrap())}}),
-        "revoke_all" => json!({"revoke_all": {"operator": my_addr(kv_u64(line, "op").unwrap())}}),
+        "uci" => {
+            let iv = kv_opt_u64(line, "image").unwrap().map(url_valid).unwrap_or(true);
+            let ev = match kv(line, "ext").unwrap() {
+                "-" | "none" => true,
+                v => url_valid(v.parse().unwrap()),
+            };
+            format!(" iv={} ev={}", iv as u8, ev as u8)
+        }
+        "inst" => {
+            let iv = url_valid(kv_u64(line, "image").unwrap());
+            let ev = kv_opt_u64(line, "ext").unwrap().map(url_valid).unwrap_or(true);
+            format!(" iv={} ev={}", iv as u8, ev as u8)
+        }
+        _ => String::new(),
+    }
+}
+
+/// JSON of the message for protocol line `line`, as a client of the collection kind `cur_kind` would encode it
+fn build_msg(op: &str, line: &str, cur_kind: &str, nm: &Names, sf: &Surface) -> Option<Value> {
+    let id = || kv_u64(line, "id").unwrap().to_string();
+    let ad = |key: &str| nm.s(kv_u64(line, key).unwrap());
+    let msg: Value = match op {
+        "transfer" => json!({"transfer_nft": {"recipient": ad("to"), "token_id": id()}}),
+        "send" => {
+            let fail = kv_u64(line, "payload").unwrap() == 0;
+            json!({"send_nft": {"contract": ad("to"), "token_id": id(), "msg": Binary::from(if fail { &b"fail"[..] } else { &b"fine"[..] })}})
+        }
+        "approve" => json!({"approve": {"spender": ad("sp"), "token_id": id(), "expires": exp_json(kv(line, "exp").unwrap())}}),
+        "revoke" => json!({"revoke": {"spender": ad("sp"), "token_id": id()}}),
+        "approve_all" => json!({"approve_all": {"operator": ad("op"), "expires": exp_json(kv(line, "exp").unwrap())}}),
+        "revoke_all" => json!({"revoke_all": {"operator": ad("op")}}),
         "mint" => {
             let ext = kv_u64(line, "ext").unwrap();
             let extension = if cur_kind == "onchain" {
@@ -447,18 +718,12 @@ fn build_msg(op: &str, line: &str, cur_kind: &str) -> Option<(Value, String)> {
             } else {
                 Value::Null
             };
-            json!({"mint": {"token_id": id(), "owner": my_addr(kv_u64(line, "owner").unwrap()),
+            json!({"mint": {"token_id": id(), "owner": ad("owner"),
                 "token_uri": kv_opt_u64(line, "uri").unwrap().map(uri_str), "extension": extension}})
         }
         "burn" => json!({"burn": {"token_id": id()}}),
         "extension" => json!({"extension": {"msg": {}}}),
         "uci" => {
-            let iv = kv_opt_u64(line, "image").unwrap().map(url_valid).unwrap_or(true);
-            let extv = match kv(line, "ext").unwrap() {
-                "-" | "none" => true,
-                v => url_valid(v.parse().unwrap()),
-            };
-            witness = format!(" iv={} ev={}", iv as u8, extv as u8);
             let ext = match kv(line, "ext").unwrap() {
                 "-" | "none" => Value::Null,
                 v => json!(url_str(v.parse().unwrap())),
@@ -467,7 +732,7 @@ fn build_msg(op: &str, line: &str, cur_kind: &str) -> Option<(Value, String)> {
                 "-" | "none" => Value::Null,
                 v => {
                     let (p, s) = v.split_once(':').unwrap();
-                    json!({"payment_address": my_addr(p.parse().unwrap()), "share": share_str(s.parse().unwrap())})
+                    json!({"payment_address": nm.s(p.parse().unwrap()), "share": share_str(s.parse().unwrap())})
                 }
             };
             let ci = json!({
@@ -476,35 +741,33 @@ fn build_msg(op: &str, line: &str, cur_kind: &str) -> Option<(Value, String)> {
                 "external_link": ext,
                 "explicit_content": match kv(line, "ec").unwrap() { "-" => Value::Null, "1" => json!(true), _ => json!(false) },
                 "royalty_info": roy,
-                "creator": kv_opt_u64(line, "creator").unwrap().map(my_addr),
+                "creator": kv_opt_u64(line, "creator").unwrap().map(|c| nm.s(c)),
             });
-            if nt {
-                json!({"update_collection_info": {"new_collection_info": ci}})
-            } else {
-                json!({"update_collection_info": {"collection_info": ci}})
-            }
+            // the field is `new_collection_info` in sg721-nt's enum, `collection_info` elsewhere (read from the schema)
+            let mut inner = Map::new();
+            inner.insert(sf.uci_field.get(cur_kind).cloned().unwrap_or_else(|| "collection_info".into()), ci);
+            json!({"update_collection_info": Value::Object(inner)})
         }
         "ustt" => json!({"update_start_trading_time": kv_opt_u64(line, "t").unwrap().map(|t| t.to_string())}),
-        // `FreezeCollectionInfo` is a unit variant in sg721::ExecuteMsg, a struct variant in the nt/updatable enums
+        // `FreezeCollectionInfo` is a unit variant in sg721::ExecuteMsg, a struct variant in the nt/updatable enums (read from the schema)
         "freeze" => {
-            if cur_kind == "base" || cur_kind == "onchain" {
+            if sf.freeze_unit.get(cur_kind).copied().unwrap_or(false) {
                 json!("freeze_collection_info")
             } else {
                 json!({"freeze_collection_info": {}})
             }
         }
-        "own_transfer" => json!({"update_ownership": {"transfer_ownership": {"new_owner": my_addr(kv_u64(line, "to").unwrap()), "expiry": exp_json(kv(line, "exp").unwrap())}}}),
+        "own_transfer" => json!({"update_ownership": {"transfer_ownership": {"new_owner": ad("to"), "expiry": exp_json(kv(line, "exp").unwrap())}}}),
         "own_accept" => json!({"update_ownership": "accept_ownership"}),
         "own_renounce" => json!({"update_ownership": "renounce_ownership"}),
         "freeze_meta" => json!({"freeze_token_metadata": {}}),
         "utm" => json!({"update_token_metadata": {"token_id": id(), "token_uri": kv_opt_u64(line, "uri").unwrap().map(uri_str)}}),
         "enable" => json!({"enable_updatable": {}}),
+        "raw" => sf.raw_msg(cur_kind, kv(line, "v").unwrap_or("?"), kv_u64(line, "k").unwrap_or(1)),
         _ => return None,
     };
-    Some((msg, witness))
+    Some(msg)
 }
-
-// ------------------------------------------------------------------------------------------------ message surface
 
 /// One sample protocol line per message kind of the protocol.
 const SAMPLES: [&str; 18] = [
@@ -528,61 +791,23 @@ const SAMPLES: [&str; 18] = [
     "enable s=10 funds=-",
 ];
 
-// Wildcard-free matches: adding, removing or renaming a variant of any of the three `ExecuteMsg` enums makes this
-// file fail to compile (reported by ./check as a broken correspondence) instead of being silently ignored.
-fn op_of_sg721(m: &sg721::ExecuteMsg<sg_metadata::Metadata, Empty>) -> &'static str {
-    use sg721::ExecuteMsg as M;
-    match m {
-        M::TransferNft { .. } => "transfer",
-        M::SendNft { .. } => "send",
-        M::Approve { .. } => "approve",
-        M::Revoke { .. } => "revoke",
-        M::ApproveAll { .. } => "approve_all",
-        M::RevokeAll { .. } => "revoke_all",
-        M::Mint { .. } => "mint",
-        M::Burn { .. } => "burn",
-        M::Extension { .. } => "extension",
-        M::UpdateCollectionInfo { .. } => "uci",
-        M::UpdateStartTradingTime(_) => "ustt",
-        M::FreezeCollectionInfo => "freeze",
-        M::UpdateOwnership(cw_ownable::Action::TransferOwnership { .. }) => "own_transfer",
-        M::UpdateOwnership(cw_ownable::Action::AcceptOwnership) => "own_accept",
-        M::UpdateOwnership(cw_ownable::Action::RenounceOwnership) => "own_renounce",
-    }
-}
-fn op_of_nt(m: &sg721_nt::msg::ExecuteMsg<cw721_base::Extension>) -> &'static str {
-    use sg721_nt::msg::ExecuteMsg as M;
-    match m {
-        M::Mint { .. } => "mint",
-        M::Burn { .. } => "burn",
-        M::UpdateCollectionInfo { .. } => "uci",
-        M::FreezeCollectionInfo {} => "freeze",
-    }
-}
-fn op_of_updatable(m: &sg721_updatable::msg::ExecuteMsg<cw721_base::Extension, Empty>) -> &'static str {
-    use sg721_updatable::msg::ExecuteMsg as M;
-    match m {
-        M::FreezeTokenMetadata {} => "freeze_meta",
-        M::UpdateTokenMetadata { .. } => "utm",
-        M::EnableUpdatable {} => "enable",
-        M::TransferNft { .. } => "transfer",
-        M::SendNft { .. } => "send",
-        M::Approve { .. } => "approve",
-        M::Revoke { .. } => "revoke",
-        M::ApproveAll { .. } => "approve_all",
-        M::RevokeAll { .. } => "revoke_all",
-        M::Burn { .. } => "burn",
-        M::UpdateCollectionInfo { .. } => "uci",
-        M::UpdateStartTradingTime(_) => "ustt",
-        M::FreezeCollectionInfo {} => "freeze",
-        M::Mint { .. } => "mint",
-        M::Extension { .. } => "extension",
+/// does the contract's own deserialiser accept these bytes as an `ExecuteMsg` of collection `kind`?
+fn decodes(kind: &str, bytes: &[u8]) -> bool {
+    match kind {
+        "base" => cosmwasm_std::from_json::<sg721::ExecuteMsg<cw721_base::Extension, Empty>>(bytes).is_ok(),
+        "onchain" => cosmwasm_std::from_json::<sg721::ExecuteMsg<sg_metadata::Metadata, Empty>>(bytes).is_ok(),
+        "nt" => cosmwasm_std::from_json::<sg721_nt::msg::ExecuteMsg<cw721_base::Extension>>(bytes).is_ok(),
+        _ => cosmwasm_std::from_json::<sg721_updatable::msg::ExecuteMsg<cw721_base::Extension, Empty>>(bytes).is_ok(),
     }
 }
 
-/// The message surface the model assumes (`LP.Sg721.supported`), checked against the real enums: every sample line
-/// is encoded as the harness encodes it and decoded with the contract's own deserialiser (serde-json-wasm).
-fn surface_check(ses: &mut Session) {
+/// The message surface the model assumes (`LP.Sg721.supported`) against the real enums, at RUN TIME: the variants are
+/// enumerated from the JSON schemas, every sample line is encoded as the harness encodes it and probed with the
+/// contract's own deserialiser. Differences are REPORTED (note + class), never asserted: the generators send every
+/// message kind to every collection anyway, so a variant the model does not expect is exercised under the monitors and
+/// yields a replay (e.g. a `transfer_nft` added to sg721-nt ⇒ `sg721-nt/transfer/owner-changed`); variants the protocol
+/// has no name for are sent as `raw v=<name>` lines.
+fn surface_check(ses: &mut Session, sf: &Surface) {
     let model_supported = |kind: &str, op: &str| -> bool {
         match kind {
             "nt" => matches!(op, "mint" | "burn" | "uci" | "freeze"),
@@ -590,27 +815,23 @@ fn surface_check(ses: &mut Session) {
             _ => !matches!(op, "freeze_meta" | "utm" | "enable"),
         }
     };
-    for kind in ["base", "nt", "updatable", "onchain"] {
+    let nm = Names { sa: addr(STUB_A), sb: addr(STUB_B), coll: None };
+    for kind in KINDS {
         for line in SAMPLES {
             let op = line.split_whitespace().next().unwrap();
-            let (msg, _) = build_msg(op, line, kind).unwrap();
-            let bytes = serde_json::to_vec(&msg).unwrap();
-            let decoded: Option<&'static str> = match kind {
-                "base" => cosmwasm_std::from_json::<sg721::ExecuteMsg<cw721_base::Extension, Empty>>(&bytes).ok().map(|_| {
-                    // same enum as onchain up to the extension type; map the variant through the onchain decoding
-                    cosmwasm_std::from_json::<sg721::ExecuteMsg<sg_metadata::Metadata, Empty>>(
-                        &serde_json::to_vec(&build_msg(op, line, "onchain").unwrap().0).unwrap(),
-                    )
-                    .map(|m| op_of_sg721(&m))
-                    .unwrap_or("?")
-                }),
-                "onchain" => cosmwasm_std::from_json::<sg721::ExecuteMsg<sg_metadata::Metadata, Empty>>(&bytes).ok().map(|m| op_of_sg721(&m)),
-                "nt" => cosmwasm_std::from_json::<sg721_nt::msg::ExecuteMsg<cw721_base::Extension>>(&bytes).ok().map(|m| op_of_nt(&m)),
-                _ => cosmwasm_std::from_json::<sg721_updatable::msg::ExecuteMsg<cw721_base::Extension, Empty>>(&bytes).ok().map(|m| op_of_updatable(&m)),
-            };
-            let want = if model_supported(kind, op) { Some(op) } else { None };
-            assert_eq!(decoded, want, "message surface of sg721-{kind} differs from the model for `{line}` (json {msg})");
-            ses.mark(format!("surface:{kind}:{op}:{}", decoded.is_some()));
+            let msg = build_msg(op, line, kind, &nm, sf).unwrap();
+            let dec = decodes(kind, &serde_json::to_vec(&msg).unwrap());
+            ses.mark(format!("surface:{kind}:{op}:{dec}"));
+            if dec != model_supported(kind, op) {
+                ses.mark(format!("surface-differs:{kind}:{op}:{dec}"));
+                ses.note(format!("MESSAGE SURFACE of sg721-{kind} differs from the model: `{op}` decodes={dec}, model expects {} (json {msg}); the generators exercise it under the monitors", !dec));
+            }
+        }
+        let names: Vec<String> = schema_variants(&sf.schema[kind]).into_iter().map(|(n, _)| n).collect();
+        ses.mark(format!("surface:{kind}:variants:{}", names.len()));
+        for u in &sf.unknown[kind] {
+            ses.mark(format!("surface-unknown:{kind}:{u}"));
+            ses.note(format!("UNKNOWN ExecuteMsg variant `{u}` in sg721-{kind} (schema): sent as raw JSON {} under the monitors; the model answers err/unchanged", sf.raw_msg(kind, u, 1)));
         }
     }
 }
@@ -624,18 +845,43 @@ struct Last {
     ok: bool,
     before: Option<Obs>,
     after: Option<Obs>,
+    /// block (height, time) the line ran in
+    blk: (u64, u64),
+}
+
+/// What the harness knows about the collection from the messages IT sent and which of them were accepted — never from
+/// the contract's answers. The monitors compare the contract's answers against this.
+#[derive(Clone, Debug, Default)]
+struct Ghost {
+    live: bool,
+    /// the minter: named by the instantiate message; changes only by an accepted AcceptOwnership of the address the
+    /// minter itself proposed (not expired per the proposal's own expiry), or an accepted RenounceOwnership by the minter
+    minter: Option<u64>,
+    /// (proposed new minter, expiry in protocol notation) of the minter's last accepted TransferOwnership
+    pending: Option<(u64, String)>,
+    /// the creator: named by the instantiate message; changes only by the creator's accepted UpdateCollectionInfo
+    creator: u64,
+    /// creator-editable fields as they were when the creator's FreezeCollectionInfo was accepted
+    frozen_info: Option<Editable>,
+    /// the creator's FreezeTokenMetadata was accepted
+    meta_frozen: bool,
+    /// ids alive = accepted mints minus accepted burns, with the address each was minted to
+    minted: BTreeMap<u64, u64>,
+    /// literal reading (`case … literal=1` only): URI per id at the moment of the metadata freeze
+    frozen_uris: BTreeMap<u64, Option<u64>>,
 }
 
 struct S {
     kind: String,
+    literal: bool,
     w: World,
+    sf: Surface,
     /// lines executed so far in this case without panicking (for rebuilding the world after a contract panic)
     log: Vec<String>,
     cur: Option<Obs>,
     last: Option<Last>,
-    /// creator-editable fields as they were when FreezeCollectionInfo succeeded
-    frozen_info: Option<(u64, (u64, u64), u64, Option<u64>, Option<bool>, Option<(u64, u128)>)>,
-    meta_frozen: bool,
+    blk: (u64, u64),
+    g: Ghost,
     panics: u64,
 }
 
@@ -650,14 +896,21 @@ fn opt_s(line: &str, key: &str) -> Option<String> {
         Some(v.to_string())
     }
 }
+fn parse_ver(s: &str) -> Option<(u64, u64, u64)> {
+    let p: Vec<&str> = s.split('.').collect();
+    if p.len() != 3 {
+        return None;
+    }
+    Some((p[0].parse().ok()?, p[1].parse().ok()?, p[2].parse().ok()?))
+}
 
 impl S {
-    fn new() -> S {
-        S { kind: "base".into(), w: World::new(), log: vec![], cur: None, last: None, frozen_info: None, meta_frozen: false, panics: 0 }
+    fn new(sf: Surface) -> S {
+        S { kind: "base".into(), literal: false, w: World::new(), sf, log: vec![], cur: None, last: None, blk: (1, 1), g: Ghost::default(), panics: 0 }
     }
 
-    fn info_json(&self, line: &str, with_stt: bool) -> (Value, bool, bool) {
-        // returns (collection info JSON, image valid, ext valid)
+    fn info_json(&self, line: &str, with_stt: bool) -> Value {
+        let nm = &self.w.names;
         let (did, dlen) = kv(line, "desc").and_then(|v| v.split_once(':')).map(|(x, y)| (x.parse::<u64>().unwrap(), y.parse::<u64>().unwrap())).unwrap();
         let img = kv_u64(line, "image").unwrap();
         let ext = kv_opt_u64(line, "ext").unwrap();
@@ -670,11 +923,11 @@ impl S {
             None => Value::Null,
             Some(v) => {
                 let (p, s) = v.split_once(':').unwrap();
-                json!({"payment_address": my_addr(p.parse().unwrap()), "share": share_str(s.parse().unwrap())})
+                json!({"payment_address": nm.s(p.parse().unwrap()), "share": share_str(s.parse().unwrap())})
             }
         };
         let mut j = json!({
-            "creator": my_addr(kv_u64(line, "creator").unwrap()),
+            "creator": nm.s(kv_u64(line, "creator").unwrap()),
             "description": desc_str(did, dlen),
             "image": url_str(img),
             "external_link": ext.map(url_str),
@@ -687,76 +940,84 @@ impl S {
                 None => Value::Null,
             };
         }
-        (j, url_valid(img), ext.map(url_valid).unwrap_or(true))
+        j
     }
 
-    /// execute one line on the real contracts; returns (model line, ok)
-    fn run_line(&mut self, line: &str) -> (String, Option<bool>) {
+    /// the code the contract runs NOW (a migrated sg721-base is an sg721-updatable)
+    fn cur_kind(&self) -> String {
+        self.cur.as_ref().map(|o| o.kind.clone()).unwrap_or(self.kind.clone())
+    }
+
+    /// execute one line on the real contracts; `None` = not an executable op
+    fn run_line(&mut self, line: &str) -> Option<bool> {
         let op = line.split_whitespace().next().unwrap_or("");
         match op {
             "block" => {
-                self.w.set_block(kv_u64(line, "h").unwrap(), kv_u64(line, "t").unwrap());
-                (line.to_string(), None)
+                self.blk = (kv_u64(line, "h").unwrap(), kv_u64(line, "t").unwrap());
+                self.w.set_block(self.blk.0, self.blk.1);
+                None
             }
             "inst" => {
-                let (ci, iv, ev) = self.info_json(line, true);
-                let msg = json!({"name": "Collection", "symbol": "COL", "minter": my_addr(kv_u64(line, "minter").unwrap()), "collection_info": ci});
+                let ci = self.info_json(line, true);
+                let msg = json!({"name": "Collection", "symbol": "COL", "minter": self.w.names.s(kv_u64(line, "minter").unwrap()), "collection_info": ci});
                 let kind = self.kind.clone();
-                let ok = self.w.instantiate(&kind, kv_u64(line, "s").unwrap(), &msg, &funds_of(line));
-                if ok {
-                    self.frozen_info = None;
-                    self.meta_frozen = false;
-                }
-                (format!("{line} iv={} ev={}", iv as u8, ev as u8), Some(ok))
+                Some(self.w.instantiate(&kind, kv_u64(line, "s").unwrap(), &msg, &funds_of(line)))
             }
             "migrate" => {
-                let ok = match self.w.coll.clone() {
-                    Some(c) => {
-                        let code = self.w.codes["updatable"];
-                        self.w.app.migrate_contract(a(ADMIN), c, &Empty {}, code).is_ok()
-                    }
-                    None => false,
-                };
-                (line.to_string(), Some(ok))
+                let to = kv(line, "to").unwrap_or("updatable").to_string();
+                let code = self.w.codes.get(to.as_str()).copied()?;
+                let cur = self.cur_kind();
+                let Some(c) = self.w.coll.clone() else { return Some(false) };
+                // scope: pointing a collection at the metadata-onchain / nt code is only done for a collection OF that kind
+                if (to == "onchain" || to == "nt") && cur != to {
+                    return Some(false);
+                }
+                Some(self.w.app.migrate_contract(a(ADMIN), c, &Empty {}, code).is_ok())
+            }
+            "setver" => {
+                let v = kv(line, "v")?;
+                parse_ver(v)?;
+                let Some(c) = self.w.coll.clone() else { return Some(false) };
+                let (name, _) = self.w.cw2().expect("cw2 record");
+                let mut st = self.w.app.contract_storage_mut(&c);
+                cw2::set_contract_version(&mut *st, name, v).expect("set cw2 version");
+                Some(true)
             }
             _ => self.run_msg(op, line),
         }
     }
 
-    fn run_msg(&mut self, op: &str, line: &str) -> (String, Option<bool>) {
-        let sender = kv_u64(line, "s").unwrap();
+    fn run_msg(&mut self, op: &str, line: &str) -> Option<bool> {
+        let sender = kv_u64(line, "s")?;
         let funds = funds_of(line);
-        // the code the contract runs NOW (a migrated sg721-base is an sg721-updatable)
-        let cur_kind = self.cur.as_ref().map(|o| o.kind.clone()).unwrap_or(self.kind.clone());
-        let Some((msg, witness)) = build_msg(op, line, &cur_kind) else { return (line.to_string(), None) };
-        let model_line = format!("{line}{witness}");
+        let msg = build_msg(op, line, &self.cur_kind(), &self.w.names, &self.sf)?;
         let Some(coll) = self.w.coll.clone() else {
-            return (model_line, Some(false)); // no collection yet: nothing to call
+            return Some(false); // no collection yet: nothing to call
         };
         if op == "uci" && kv_bool(line, "direct").unwrap_or(false) {
-            return (model_line, Some(self.uci_direct(line, &coll, sender, funds)));
+            return Some(self.uci_direct(line, &coll, sender, funds));
         }
-        (model_line, Some(self.w.send(sender, &coll, &msg, &funds)))
+        Some(self.w.send(sender, &coll, &msg, &funds))
     }
 
-    /// typed call of `Sg721Contract::update_collection_info` on the collection's storage: the only way to reach
-    /// `Some(None)` for `external_link` / `royalty_info` (JSON `null` deserialises to the outer `None`).
-    fn uci_direct(&mut self, line: &str, coll: &Addr, sender: u64, funds: Vec<Coin>) -> bool {
+    fn uci_typed(&self, line: &str, with_royalty: bool) -> sg721::UpdateCollectionInfoMsg<sg721::RoyaltyInfoResponse> {
         use sg721::{RoyaltyInfoResponse, UpdateCollectionInfoMsg};
+        let nm = &self.w.names;
         let ext = match kv(line, "ext").unwrap() {
             "-" => None,
             "none" => Some(None),
             v => Some(Some(url_str(v.parse().unwrap()))),
         };
         let roy = match kv(line, "roy").unwrap() {
+            _ if !with_royalty => None,
             "-" => None,
             "none" => Some(None),
             v => {
                 let (p, s) = v.split_once(':').unwrap();
-                Some(Some(RoyaltyInfoResponse { payment_address: my_addr(p.parse().unwrap()), share: Decimal::new(Uint128::new(s.parse().unwrap())) }))
+                Some(Some(RoyaltyInfoResponse { payment_address: nm.s(p.parse().unwrap()), share: Decimal::new(Uint128::new(s.parse().unwrap())) }))
             }
         };
-        let msg = UpdateCollectionInfoMsg {
+        UpdateCollectionInfoMsg {
             description: opt_s(line, "desc").map(|v| {
                 let (x, y) = v.split_once(':').unwrap();
                 desc_str(x.parse().unwrap(), y.parse().unwrap())
@@ -769,88 +1030,190 @@ impl S {
                 _ => Some(false),
             },
             royalty_info: roy,
-            creator: kv_opt_u64(line, "creator").unwrap().map(my_addr),
-        };
+            creator: kv_opt_u64(line, "creator").unwrap().map(|c| nm.s(c)),
+        }
+    }
+
+    /// typed call of `Sg721Contract::update_collection_info` on the collection's storage: the only way to reach
+    /// `Some(None)` for `external_link` / `royalty_info` (JSON `null` deserialises to the outer `None`).
+    fn uci_direct(&mut self, line: &str, coll: &Addr, sender: u64, funds: Vec<Coin>) -> bool {
+        let msg = self.uci_typed(line, true);
         let block = self.w.app.block_info();
         let env = Env { block, transaction: None, contract: ContractInfo { address: coll.clone() } };
         let api = MockApi::default();
         let mq: MockQuerier<Empty> = MockQuerier::default();
+        let who = self.w.ad(sender);
         let mut st = self.w.app.contract_storage_mut(coll);
         let deps = DepsMut { storage: &mut *st, api: &api, querier: QuerierWrapper::new(&mq) };
-        sg721_base::Sg721Contract::<cw721_base::Extension>::default()
-            .update_collection_info(deps, env, MessageInfo { sender: a(sender), funds }, msg)
-            .is_ok()
+        sg721_base::Sg721Contract::<cw721_base::Extension>::default().update_collection_info(deps, env, MessageInfo { sender: who, funds }, msg).is_ok()
+    }
+
+    /// Would the same update WITHOUT its royalty part be accepted? Run on a scratch copy of the contract's storage.
+    /// Used only to attribute a refused update to the royalty rules (C10's) — the `racc` witness / drift field.
+    fn probe_uci_without_royalty(&self, line: &str) -> bool {
+        let Some(coll) = self.w.coll.clone() else { return false };
+        let Some(sender) = kv_u64(line, "s") else { return false };
+        let mut ms = MockStorage::new();
+        for (k, v) in self.w.app.dump_wasm_raw(&coll) {
+            ms.set(&k, &v);
+        }
+        let msg = self.uci_typed(line, false);
+        let env = Env { block: self.w.app.block_info(), transaction: None, contract: ContractInfo { address: coll } };
+        let api = MockApi::default();
+        let mq: MockQuerier<Empty> = MockQuerier::default();
+        let who = self.w.ad(sender);
+        catch(move || {
+            let deps = DepsMut { storage: &mut ms, api: &api, querier: QuerierWrapper::new(&mq) };
+            sg721_base::Sg721Contract::<cw721_base::Extension>::default().update_collection_info(deps, env, MessageInfo { sender: who, funds: vec![] }, msg).is_ok()
+        })
+        .unwrap_or(false)
     }
 
     fn rebuild(&mut self) {
         let log = std::mem::take(&mut self.log);
         self.w = World::new();
         self.cur = None;
+        self.blk = (1, 1);
         for l in &log {
-            let _ = self.run_line(l);
+            let _ = catch(|| self.run_line(l));
             self.cur = self.w.observe(); // message encodings depend on the code the contract currently runs
         }
         self.log = log;
+    }
+
+    /// coverage classes of the line just executed (what kind of accept/refusal it was), for the coverage floor
+    fn req_classes(&self) -> Vec<String> {
+        let mut out = vec![];
+        let Some(l) = &self.last else { return out };
+        let (Some(b), Some(a)) = (&l.before, &l.after) else { return out };
+        let line = &l.line;
+        let s = kv_u64(line, "s");
+        let k = &b.kind;
+        let mut m = |c: &str| out.push(format!("req:{k}:{c}"));
+        let id = kv_u64(line, "id");
+        let tok_b = id.and_then(|i| b.tok(i));
+        match (l.op.as_str(), l.ok) {
+            ("mint", true) => m("mint-ok"),
+            ("mint", false) if s != b.owner && tok_b.is_none() && kv_u64(line, "owner").map(|o| o < 900).unwrap_or(false) => m("mint-non-minter-rejected"),
+            ("mint", false) if s == b.owner && s.is_some() && tok_b.is_some() => m("mint-dup-rejected"),
+            ("burn", true) => m("burn-ok"),
+            ("burn", false) if tok_b.is_some() && tok_b.map(|t| t.owner) != s => m("burn-non-owner-rejected"),
+            ("transfer", true) => m("transfer-ok"),
+            ("transfer", false) if tok_b.map(|t| t.owner) == s && s.is_some() => m("transfer-by-owner-rejected"),
+            ("freeze", true) => m("freeze-ok"),
+            ("freeze", false) if s != Some(b.creator) => m("freeze-non-creator-rejected"),
+            ("uci", true) => m("uci-ok"),
+            ("uci", false) if b.fz && s == Some(b.creator) => m("uci-after-freeze-rejected"),
+            ("uci", false) if !b.fz && s != Some(b.creator) => m("uci-non-creator-rejected"),
+            ("own_transfer", true) => m("handover-proposed"),
+            ("own_accept", true) => m("handover-accepted"),
+            ("own_accept", false) if s.is_some() && s == b.pending => m("accept-expired-rejected"),
+            ("own_accept", false) if b.pending.is_some() && s != b.pending => m("accept-not-proposed-rejected"),
+            ("own_renounce", true) => m("renounce-ok"),
+            ("utm", true) => m("utm-ok"),
+            ("utm", false) if b.fm && s == Some(b.creator) && tok_b.is_some() => m("utm-after-freeze-rejected"),
+            ("utm", false) if !b.fm && b.ue && s != Some(b.creator) && tok_b.is_some() => m("utm-non-creator-rejected"),
+            ("freeze_meta", true) => m("freeze-meta-ok"),
+            ("migrate", true) => {
+                m("migrate-ok");
+                if b.fm {
+                    m("migrate-ok-with-frozen-metadata");
+                }
+                if b.fz {
+                    m("migrate-ok-with-frozen-info");
+                }
+                if parse_ver(&b.ver).map(|v| v < (3, 1, 0)).unwrap_or(false) {
+                    m("migrate-ok-from-below-3.1.0");
+                }
+                if b.ver != a.ver && a.kind == *k {
+                    m("migrate-upgrade-ok");
+                }
+            }
+            ("migrate", false) => m("migrate-rejected"),
+            ("raw", _) => m("raw"),
+            _ => {}
+        }
+        if a.toks.len() > 100 {
+            m("more-than-100-tokens");
+        }
+        out
     }
 }
 
 impl Sut for S {
     fn begin(&mut self, header: &str) -> (String, String) {
         self.kind = kv(header, "kind").unwrap_or("base").to_string();
+        self.literal = kv(header, "literal") == Some("1");
         self.w = World::new();
         self.log.clear();
         self.cur = None;
         self.last = None;
-        self.frozen_info = None;
-        self.meta_frozen = false;
+        self.blk = (1, 1);
+        self.g = Ghost::default();
         (header.to_string(), "case".to_string())
     }
 
     fn exec(&mut self, line: &str) -> (String, String) {
         let op = line.split_whitespace().next().unwrap_or("").to_string();
         let before = self.cur.clone();
-        let saved = (self.frozen_info.clone(), self.meta_frozen);
         let r = catch(|| self.run_line(line));
-        let (model_line, ok) = match r {
+        let ok = match r {
             Ok(x) => {
                 self.log.push(line.to_string());
                 x
             }
             Err(_) => {
-                // contract panicked (`todo!()` in Extension): on chain that is a failed transaction
+                // contract panicked (`todo!()` in Extension, `Timestamp::minus_seconds` underflow in a migration): on chain that is
+                // a failed transaction; cw-multi-test's state may be half-written, so the world is rebuilt from the log
                 self.panics += 1;
-                self.frozen_info = saved.0;
-                self.meta_frozen = saved.1;
                 self.rebuild();
-                let mut ml = line.to_string();
-                if op == "send" {
-                    ml.push_str(" recv=0");
-                }
-                if op == "uci" || op == "inst" {
-                    ml.push_str(" iv=1 ev=1");
-                }
-                (ml, Some(false))
+                Some(false)
             }
         };
+        // witnesses that depend on the line alone are computed from the line (also after a panic)
+        let mut model_line = format!("{line}{}", if ok.is_some() { line_witness(&op, line) } else { String::new() });
         let Some(ok) = ok else {
             self.last = None;
             return (model_line, if op == "block" { "blk".into() } else { "bad-op".into() });
         };
+        // royalty rules (C10's): witness for the model + the implementation's verdict for the drift part
+        let mut racc_obs = "-";
+        if op == "uci" {
+            let has_roy = !matches!(kv(line, "roy"), Some("-") | Some("none") | None);
+            let mut racc_w = 1;
+            if has_roy && self.w.coll.is_some() {
+                if ok {
+                    racc_obs = "1";
+                } else if self.probe_uci_without_royalty(line) {
+                    racc_w = 0;
+                    racc_obs = "0";
+                }
+            }
+            model_line.push_str(&format!(" racc={racc_w}"));
+        }
         let after = self.w.observe();
         self.cur = after.clone();
-        self.last = Some(Last { line: line.to_string(), op, ok, before, after: after.clone() });
-        let out = format!("{} {}", if ok { "ok" } else { "err" }, after.map(|o| o.render()).unwrap_or("-".into()));
+        self.last = Some(Last { line: line.to_string(), op, ok, before, after: after.clone(), blk: self.blk });
+        let res = if ok { "ok" } else { "err" };
+        let out = if self.last.as_ref().map(|l| l.op == "raw").unwrap_or(false) {
+            // an unknown variant: whether the call itself succeeds is outside the projection; what it does to the state is not
+            format!("raw {}", after.map(|o| format!("{} res={res}", o.render(racc_obs))).unwrap_or("-".into()))
+        } else {
+            format!("{res} {}", after.map(|o| o.render(racc_obs)).unwrap_or("-".into()))
+        };
         (model_line, out)
     }
 
-    /// Direct transcription of the property on the implementation's own observations (queries / raw storage
-    /// before and after the call), independent of the Lean model.
+    /// Direct transcription of the property: the contract's answers (queries / typed state) after each call are compared
+    /// with the harness's own bookkeeping of what it sent and what was accepted (`Ghost`) — independent of the Lean model
+    /// and not derived from the answers a bug would corrupt.
     fn monitor(&mut self) -> Option<(String, String)> {
         let l = self.last.clone()?;
         let after = l.after.as_ref()?;
         let kind = after.kind.clone();
         let line = &l.line;
         let bad = |p: &str, w: String| Some((format!("sg721-{kind}/{}/{p}", l.op), format!("{w} on `{line}`")));
+        let sender = kv_u64(line, "s");
         // token count always equals the number of existing tokens
         if after.n != after.toks.len() as u64 {
             return bad("count", format!("NumTokens={} but AllTokens has {}", after.n, after.toks.len()));
@@ -860,62 +1223,127 @@ impl Sut for S {
             return bad("duplicate-id", "AllTokens lists an id twice".into());
         }
         if l.op == "inst" {
-            if l.ok && !after.toks.is_empty() {
-                return bad("token-created", "fresh collection already has tokens".into());
+            if l.ok {
+                if !after.toks.is_empty() {
+                    return bad("token-created", "fresh collection already has tokens".into());
+                }
+                self.g = Ghost { live: true, minter: kv_u64(line, "minter"), creator: kv_u64(line, "creator").unwrap_or(u64::MAX), ..Ghost::default() };
+                if after.minter_q != self.g.minter {
+                    return bad("minter-changed", format!("the fresh collection's minter is {:?}, the instantiate message named {:?}", after.minter_q, self.g.minter));
+                }
             }
             return None;
         }
+        if !self.g.live {
+            return None;
+        }
         let Some(before) = l.before.as_ref() else { return None };
-        let sender = kv_u64(line, "s");
         // a failed call changes nothing
         if !l.ok && before != after {
-            return bad("failed-call-changed-state", format!("before `{}` after `{}`", before.render(), after.render()));
+            return bad("failed-call-changed-state", format!("before `{}` after `{}`", before.render("-"), after.render("-")));
         }
-        // a token can be created only by the minter, never with an id that already exists
+        let id = kv_u64(line, "id");
+
+        // ---- a token can be created only by the minter, never with an id that already exists
         let ids_before: BTreeSet<u64> = before.toks.iter().map(|t| t.id).collect();
         let created: Vec<u64> = ids_after.difference(&ids_before).cloned().collect();
-        if !created.is_empty() {
-            let is_mint = l.op == "mint" && l.ok && created == vec![kv_u64(line, "id").unwrap_or(u64::MAX)];
-            if !is_mint {
-                return bad("token-created", format!("tokens {:?} appeared without a mint of exactly that id", created));
-            }
+        if !created.is_empty() && !(l.op == "mint" && l.ok && created == vec![id.unwrap_or(u64::MAX)]) {
+            return bad("token-created", format!("tokens {:?} appeared without a mint of exactly that id", created));
         }
         if l.op == "mint" && l.ok {
-            let id = kv_u64(line, "id").unwrap();
-            if before.minter_q.is_none() || before.minter_q != sender {
-                return bad("non-minter", format!("mint succeeded for sender {:?} while the minter was {:?}", sender, before.minter_q));
+            let id = id.unwrap();
+            if self.g.minter.is_none() || self.g.minter != sender {
+                return bad("non-minter", format!("mint succeeded for sender {:?} while the minter (per the accepted ownership messages) was {:?}", sender, self.g.minter));
             }
-            if ids_before.contains(&id) {
+            if self.g.minted.contains_key(&id) || ids_before.contains(&id) {
                 return bad("duplicate-id", format!("mint of existing id {id} succeeded"));
             }
             if !ids_after.contains(&id) {
                 return bad("mint-lost", format!("mint of {id} succeeded but the token does not exist"));
             }
+            self.g.minted.insert(id, kv_u64(line, "owner").unwrap_or(u64::MAX));
         }
-        // once the creator froze collection info no later call changes any creator-editable field
-        if before.fz && !after.fz {
-            return bad("unfrozen", "frozen_collection_info went back to false".into());
+        if l.op == "burn" && l.ok {
+            let id = id.unwrap();
+            // non-transferable collection: only the address the token was minted to can burn it
+            if before.kind == "nt" && self.g.minted.get(&id).copied() != sender {
+                return bad("burn-by-non-owner", format!("token {id} (minted to {:?}) burned by {:?}", self.g.minted.get(&id), sender));
+            }
+            self.g.minted.remove(&id);
         }
-        if let Some(snap) = &self.frozen_info {
+        if let Some(x) = ids_after.iter().find(|i| !self.g.minted.contains_key(i)) {
+            return bad("token-created", format!("token {x} exists although no accepted mint of it is outstanding"));
+        }
+        if after.n != self.g.minted.len() as u64 {
+            return bad("count", format!("NumTokens={} but accepted mints minus accepted burns = {}", after.n, self.g.minted.len()));
+        }
+
+        // ---- who is the minter (cw_ownable owner): only accept-of-a-proposal-by-the-minter / renounce-by-the-minter change it
+        match (l.op.as_str(), l.ok) {
+            ("own_transfer", true) => {
+                if self.g.minter.is_none() || self.g.minter != sender {
+                    return bad("transfer-by-non-minter", format!("TransferOwnership by {:?} accepted while the minter was {:?}", sender, self.g.minter));
+                }
+                self.g.pending = Some((kv_u64(line, "to").unwrap_or(u64::MAX), kv(line, "exp").unwrap_or("-").to_string()));
+            }
+            ("own_accept", true) => match self.g.pending.clone() {
+                Some((p, e)) if Some(p) == sender && !exp_expired(&e, l.blk.0, l.blk.1) => {
+                    self.g.minter = sender;
+                    self.g.pending = None;
+                }
+                other => {
+                    return bad("accept-not-proposed", format!("AcceptOwnership by {:?} accepted in block {:?} while the minter's outstanding proposal was {:?}", sender, l.blk, other));
+                }
+            },
+            ("own_renounce", true) => {
+                if self.g.minter.is_none() || self.g.minter != sender {
+                    return bad("renounce-by-non-minter", format!("RenounceOwnership by {:?} accepted while the minter was {:?}", sender, self.g.minter));
+                }
+                self.g.minter = None;
+                self.g.pending = None;
+            }
+            _ => {}
+        }
+        if after.minter_q != self.g.minter {
+            return bad("minter-changed", format!("Minter{{}} answers {:?}, but per the accepted ownership messages the minter is {:?}", after.minter_q, self.g.minter));
+        }
+
+        // ---- once the creator froze collection info no later call changes any creator-editable field
+        if self.g.frozen_info.is_some() && !after.fz {
+            return bad("unfrozen", "frozen_collection_info is false after an accepted FreezeCollectionInfo".into());
+        }
+        if let Some(snap) = &self.g.frozen_info {
             if &after.editable() != snap {
                 return bad("frozen-info-changed", format!("creator-editable fields changed after the freeze: {:?} -> {:?}", snap, after.editable()));
             }
         }
         if l.op == "freeze" && l.ok {
-            if before.creator != sender.unwrap_or(u64::MAX) {
+            if Some(self.g.creator) != sender {
                 return bad("non-creator", "FreezeCollectionInfo by a non-creator succeeded".into());
             }
             if !after.fz {
                 return bad("not-frozen", "FreezeCollectionInfo succeeded but the flag is false".into());
             }
-            if self.frozen_info.is_none() {
-                self.frozen_info = Some(after.editable());
+            if self.g.frozen_info.is_none() {
+                self.g.frozen_info = Some(after.editable());
             }
         }
-        if l.op == "uci" && l.ok && (before.fz || before.creator != sender.unwrap_or(u64::MAX)) {
-            return bad("guard", "UpdateCollectionInfo succeeded while frozen or from a non-creator".into());
+        if l.op == "uci" && l.ok {
+            if self.g.frozen_info.is_some() || Some(self.g.creator) != sender {
+                return bad("guard", "UpdateCollectionInfo succeeded while frozen or from a non-creator".into());
+            }
+            if let Some(Some(c)) = kv_opt_u64(line, "creator") {
+                self.g.creator = c;
+            }
         }
-        // token metadata: updates need the creator and an existing token; after the freeze no URI changes again
+        if before.editable() != after.editable() && !(l.op == "uci" && l.ok) {
+            return bad("info-changed", format!("creator-editable fields changed without an accepted UpdateCollectionInfo: {:?} -> {:?}", before.editable(), after.editable()));
+        }
+        if after.creator != self.g.creator {
+            return bad("creator-changed", format!("CollectionInfo.creator is {}, but per the accepted messages the creator is {}", after.creator, self.g.creator));
+        }
+
+        // ---- token metadata: updates need the creator and an existing token; after the freeze no URI changes again
         let mut uri_changed: Vec<u64> = vec![];
         for t in &before.toks {
             if let Some(t2) = after.tok(t.id) {
@@ -924,57 +1352,69 @@ impl Sut for S {
                 }
             }
         }
-        if before.fm && !after.fm {
-            return bad("meta-unfrozen", "frozen_token_metadata went back to false".into());
+        if self.g.meta_frozen && !after.fm {
+            return bad("meta-unfrozen", "frozen_token_metadata is false after an accepted FreezeTokenMetadata".into());
         }
-        if self.meta_frozen && (!uri_changed.is_empty() || (l.op == "utm" && l.ok)) {
+        if self.g.meta_frozen && (!uri_changed.is_empty() || (l.op == "utm" && l.ok)) {
             return bad("frozen-uri-changed", format!("token URIs {:?} changed / update accepted after FreezeTokenMetadata", uri_changed));
         }
         if l.op == "freeze_meta" && l.ok {
-            if before.creator != sender.unwrap_or(u64::MAX) {
+            if Some(self.g.creator) != sender {
                 return bad("non-creator", "FreezeTokenMetadata by a non-creator succeeded".into());
             }
-            self.meta_frozen = true;
+            if !after.fm {
+                return bad("meta-not-frozen", "FreezeTokenMetadata succeeded but the flag is false".into());
+            }
+            if !self.g.meta_frozen && self.literal {
+                self.g.frozen_uris = after.toks.iter().map(|t| (t.id, t.uri)).collect();
+            }
+            self.g.meta_frozen = true;
         }
         if l.op == "utm" && l.ok {
-            let id = kv_u64(line, "id").unwrap();
-            if before.creator != sender.unwrap_or(u64::MAX) || !ids_before.contains(&id) || kind != "updatable" {
+            let id = id.unwrap();
+            if Some(self.g.creator) != sender || !self.g.minted.contains_key(&id) || before.kind != "updatable" {
                 return bad("guard", "UpdateTokenMetadata succeeded for a non-creator / missing token / non-updatable collection".into());
             }
         }
-        if !uri_changed.is_empty() {
-            let legit = l.op == "utm" && l.ok && uri_changed == vec![kv_u64(line, "id").unwrap_or(u64::MAX)];
-            if !legit {
-                return bad("uri-changed", format!("URIs of {:?} changed without an UpdateTokenMetadata of that token", uri_changed));
-            }
+        if !uri_changed.is_empty() && !(l.op == "utm" && l.ok && uri_changed == vec![id.unwrap_or(u64::MAX)]) {
+            return bad("uri-changed", format!("URIs of {:?} changed without an UpdateTokenMetadata of that token", uri_changed));
         }
-        // non-transferable collection: the owner never changes between mint and burn; only the owner burns
-        if kind == "nt" {
-            for t in &before.toks {
-                if let Some(t2) = after.tok(t.id) {
-                    if t2.owner != t.owner {
-                        return bad("owner-changed", format!("token {} moved from {} to {}", t.id, t.owner, t2.owner));
+        // LITERAL reading of "no token URI changes again" (only in cases whose header says literal=1; see docs/C09.md):
+        // what NftInfo answers for an id that existed at the freeze never changes, burn + re-mint included
+        if self.literal {
+            for (tid, uri) in &self.g.frozen_uris {
+                if let Some(t) = after.tok(*tid) {
+                    if t.uri != *uri {
+                        return bad("frozen-uri-changed-literal", format!("NftInfo({tid}).token_uri was {:?} at the metadata freeze and is {:?} now", uri, t.uri));
                     }
                 }
             }
-            if l.op == "burn" && l.ok {
-                let id = kv_u64(line, "id").unwrap();
-                if before.tok(id).map(|t| t.owner) != sender {
-                    return bad("burn-by-non-owner", format!("token {id} burned by {:?}", sender));
+        }
+
+        // ---- non-transferable collection: between mint and burn the owner is the address the token was minted to
+        if kind == "nt" {
+            for t in &after.toks {
+                if let Some(o) = self.g.minted.get(&t.id) {
+                    if *o != t.owner {
+                        return bad("owner-changed", format!("token {} was minted to {} and is now owned by {}", t.id, o, t.owner));
+                    }
                 }
             }
         }
         None
     }
 }
-
 // ------------------------------------------------------------------------------------------------ generators
 
 struct G {
     rng: Rng,
     h: u64,
     t: u64,
+    sf: Surface,
 }
+
+/// stored versions worth trying: around the inline 3.0.0 / 3.1.0 thresholds, the earliest compatible version, older / newer
+const VERSIONS: [&str; 10] = ["3.15.0", "3.1.0", "3.0.9", "3.0.5", "3.0.0", "2.9.9", "0.16.0", "0.15.9", "99.0.0", "3.1.1"];
 
 fn parse_exp(e: &str) -> Option<(char, u64)> {
     if e == "n" {
@@ -995,7 +1435,7 @@ impl G {
             0 => *self.rng.pick(&INVALID),
             1 => STUB_A,
             2 => STUB_B,
-            3 => 1002, // (usually) the collection itself
+            3 => COLL, // the collection itself
             4 => 10,
             _ => *self.rng.pick(&HOLDERS),
         }
@@ -1358,11 +1798,31 @@ impl G {
                     (format!("utm s={s} funds={ff} id={id} uri={uri}"), role)
                 }
             }
-        } else if pick < 99 {
+        } else if pick < 98 {
             (format!("extension s={} funds={f}", self.any_sender()), "any")
         } else {
-            ("migrate".to_string(), "admin")
+            // chain-level: stored version of an older release / migrate to one of the four codes
+            if self.rng.chance(1, 2) {
+                (format!("setver v={}", self.rng.pick(&VERSIONS)), "admin")
+            } else {
+                let to = if self.rng.chance(2, 3) { "updatable" } else { *self.rng.pick(&KINDS) };
+                (format!("migrate to={to}"), "admin")
+            }
         };
+        // message variants the protocol has no name for (none on the unchanged tree): sent raw, from every role
+        let unknown = self.sf.unknown.get(&o.kind).cloned().unwrap_or_default();
+        if !unknown.is_empty() && self.rng.chance(1, 12) {
+            let v = self.rng.pick(&unknown).clone();
+            let s = match self.rng.below(5) {
+                0 => minter.unwrap_or(STUB_A),
+                1 => creator,
+                2 => o.toks.first().map(|t| t.owner).unwrap_or(20),
+                3 => STRANGER,
+                _ => self.any_sender(),
+            };
+            let l = format!("raw s={s} funds=- v={v} k={}", self.rng.range(1, 4));
+            return self.class(o, l, "any");
+        }
         self.class(o, line, role)
     }
 
@@ -1383,21 +1843,37 @@ impl G {
     }
 }
 
+/// one step + the coverage classes of what just happened
+fn stepm(ses: &mut Session, sut: &mut S, line: &str) -> String {
+    let out = ses.step(sut, line);
+    for c in sut.req_classes() {
+        ses.mark(c);
+    }
+    out
+}
+fn run_lines(ses: &mut Session, sut: &mut S, lines: &[String]) {
+    ses.begin_case(sut, &lines[0]);
+    for l in &lines[1..] {
+        stepm(ses, sut, l);
+    }
+    ses.end_case();
+}
+
 fn random_case(ses: &mut Session, sut: &mut S, g: &mut G, kind: &str, n_ops: u64, tag: &str) {
     g.h = 100 + g.rng.below(50);
     g.t = T0 + g.rng.below(1_000_000_000);
     ses.begin_case(sut, &format!("case kind={kind} {tag}"));
-    ses.step(sut, &format!("block h={} t={}", g.h, g.t));
+    stepm(ses, sut, &format!("block h={} t={}", g.h, g.t));
     // a few messages before any collection exists
     if g.rng.chance(1, 6) {
-        ses.step(sut, "freeze s=10 funds=-");
+        stepm(ses, sut, "freeze s=10 funds=-");
     }
     // instantiate: sometimes a faulty attempt first
     let mut tries = 0;
     loop {
         let fault = tries == 0 && g.rng.chance(1, 3);
         let l = g.inst_line(fault);
-        let out = ses.step(sut, &l);
+        let out = stepm(ses, sut, &l);
         ses.mark(format!("{kind}:inst:{}:{}", if fault { "fault" } else { "valid" }, &out[..2]));
         tries += 1;
         if out.starts_with("ok") {
@@ -1408,26 +1884,38 @@ fn random_case(ses: &mut Session, sut: &mut S, g: &mut G, kind: &str, n_ops: u64
     let early_freeze = g.rng.chance(1, 3);
     let early_meta_freeze = kind == "updatable" && g.rng.chance(1, 3);
     let migrate_early = kind == "base" && g.rng.chance(1, 5);
+    // an sg721-updatable / -metadata-onchain collection of an older release is upgraded in the middle of its history
+    let upgrade_mid = (kind == "updatable" || kind == "onchain") && g.rng.chance(1, 3);
+    let old_release = kind == "base" && g.rng.chance(1, 6);
     for i in 0..n_ops {
         let o = sut.cur.clone();
         if let Some(b) = g.clock(o.as_ref()) {
-            ses.step(sut, &b);
+            stepm(ses, sut, &b);
         }
         let Some(o) = sut.cur.clone() else { break };
+        if old_release && i == 1 {
+            stepm(ses, sut, &format!("setver v={}", g.rng.pick(&["3.0.5", "3.1.0", "3.15.0"])));
+            continue;
+        }
         if migrate_early && i == 3 {
-            ses.step(sut, "migrate");
+            stepm(ses, sut, "migrate to=updatable");
             continue;
         }
         if early_freeze && i == n_ops / 4 {
-            ses.step(sut, &format!("freeze s={} funds=-", o.creator));
+            stepm(ses, sut, &format!("freeze s={} funds=-", o.creator));
             continue;
         }
         if early_meta_freeze && i == n_ops / 3 {
-            ses.step(sut, &format!("freeze_meta s={} funds=-", o.creator));
+            stepm(ses, sut, &format!("freeze_meta s={} funds=-", o.creator));
+            continue;
+        }
+        if upgrade_mid && i == n_ops / 2 {
+            stepm(ses, sut, &format!("setver v={}", g.rng.pick(&["3.15.0", "3.1.0", "3.0.5", "3.0.0"])));
+            stepm(ses, sut, &format!("migrate to={kind}"));
             continue;
         }
         let (line, cls) = g.op_line(&o);
-        let out = ses.step(sut, &line);
+        let out = stepm(ses, sut, &line);
         ses.mark(format!("{cls}:{}", &out[..2]));
     }
     ses.end_case();
@@ -1455,6 +1943,8 @@ fn exhaustive(ses: &mut Session, sut: &mut S, kind: &str, depth: usize) {
         "utm s=10 funds=- id=1 uri=44".into(),
         "freeze_meta s=10 funds=-".into(),
         "block h=102 t=1700000100000000000".into(),
+        "setver v=3.0.5".into(),
+        "migrate to=updatable".into(),
     ];
     let n = alphabet.len();
     let mut idx = vec![0usize; depth];
@@ -1473,9 +1963,27 @@ fn exhaustive(ses: &mut Session, sut: &mut S, kind: &str, depth: usize) {
         for d in 0..depth {
             lines.push(alphabet[idx[d]].clone());
         }
-        ses.run_case(sut, &lines);
+        run_lines(ses, sut, &lines);
     }
     ses.mark(format!("{kind}:exhaustive:depth{depth}:{total}"));
+}
+
+/// the version the code of `kind` records at instantiate (read from a fresh collection), and its neighbours
+fn code_version(sut: &mut S, kind: &str) -> (u64, u64, u64) {
+    sut.begin(&format!("case kind={kind} probe"));
+    sut.exec(&format!("block h=100 t={T0}"));
+    sut.exec(&format!("inst s={STUB_A} funds=- minter={STUB_A} creator=10 desc=1:30 image=0 ext=- ec=- stt=- roy=-"));
+    // (a pre-release / build-metadata version is outside the model's semver anyway; do not abort on one)
+    sut.cur.as_ref().and_then(|o| parse_ver(&o.ver)).unwrap_or((3, 16, 0))
+}
+fn ver_below((a, b, c): (u64, u64, u64)) -> String {
+    if c > 0 {
+        format!("{a}.{b}.{}", c - 1)
+    } else if b > 0 {
+        format!("{a}.{}.999", b - 1)
+    } else {
+        format!("{}.999.999", a.saturating_sub(1))
+    }
 }
 
 /// scripted scenarios at exact boundaries and for the clauses of the property (also the documentation examples)
@@ -1483,9 +1991,9 @@ fn scripted(ses: &mut Session, sut: &mut S) {
     let t0 = T0;
     let day = DAY_NS;
     let p = 10u128.pow(16);
-    for kind in ["base", "nt", "updatable", "onchain"] {
+    for kind in KINDS {
         let inst = format!("inst s={STUB_A} funds=- minter={STUB_A} creator=10 desc=1:512 image=0 ext=7 ec=0 stt=- roy=40:{}", 5 * p);
-        // 1. mint authority before/after a hand-over, duplicate ids, burn + re-mint
+        // 1. mint authority before/after a hand-over, duplicate ids (same block), burn + re-mint
         let lines: Vec<String> = vec![
             format!("case kind={kind} scripted mint-authority"),
             format!("block h=100 t={t0}"),
@@ -1513,8 +2021,50 @@ fn scripted(ses: &mut Session, sut: &mut S) {
             format!("mint s={STUB_B} funds=- id=5 owner=22 uri=9 ext=0"),
             format!("ustt s={STUB_B} funds=- t=5"),
         ];
-        ses.run_case(sut, &lines);
-        // 2. collection-info freeze: every mutating message afterwards
+        run_lines(ses, sut, &lines);
+        // 1b. hand-over with a TIME expiry at the exact instant -1/0/+1 ns, a proposal overwritten between two accepts,
+        //     accept/renounce/transfer by everybody who is not entitled (the minter ghost must follow exactly)
+        let lines: Vec<String> = vec![
+            format!("case kind={kind} scripted handover-boundaries"),
+            format!("block h=100 t={t0}"),
+            inst.clone(),
+            format!("mint s={STUB_A} funds=- id=1 owner=20 uri=1 ext=0"),
+            "own_transfer s=10 funds=- to=10 exp=-".into(),
+            "own_transfer s=20 funds=- to=20 exp=-".into(),
+            "own_accept s=10 funds=-".into(),
+            "own_renounce s=10 funds=-".into(),
+            "own_renounce s=20 funds=-".into(),
+            format!("own_transfer s={STUB_A} funds=- to=21 exp=t{}", t0 + 5),
+            format!("own_transfer s={STUB_A} funds=- to=22 exp=t{}", t0 + 5),
+            format!("block h=100 t={}", t0 + 4),
+            "own_accept s=21 funds=-".into(),
+            format!("own_accept s={STUB_A} funds=-"),
+            format!("block h=100 t={}", t0 + 5),
+            "own_accept s=22 funds=-".into(),
+            format!("block h=100 t={}", t0 + 6),
+            "own_accept s=22 funds=-".into(),
+            format!("mint s={STUB_A} funds=- id=2 owner=21 uri=- ext=0"),
+            "mint s=22 funds=- id=3 owner=21 uri=- ext=0".into(),
+            format!("own_transfer s={STUB_A} funds=- to=22 exp=t{}", t0 + 8),
+            format!("block h=100 t={}", t0 + 7),
+            "own_accept s=22 funds=-".into(),
+            "own_accept s=22 funds=-".into(),
+            format!("mint s={STUB_A} funds=- id=3 owner=21 uri=- ext=0"),
+            "mint s=22 funds=- id=3 owner=21 uri=- ext=0".into(),
+            "mint s=22 funds=- id=3 owner=21 uri=- ext=0".into(),
+            format!("own_transfer s={STUB_A} funds=- to={STUB_A} exp=-"),
+            "own_transfer s=22 funds=- to=900 exp=-".into(),
+            "own_transfer s=22 funds=- to=23 exp=h100".into(),
+            "own_accept s=23 funds=-".into(),
+            "own_transfer s=22 funds=- to=23 exp=h101".into(),
+            "own_accept s=23 funds=-".into(),
+            "own_renounce s=22 funds=-".into(),
+            "own_renounce s=23 funds=-".into(),
+            "mint s=23 funds=- id=4 owner=21 uri=- ext=0".into(),
+            "own_accept s=23 funds=-".into(),
+        ];
+        run_lines(ses, sut, &lines);
+        // 2. collection-info freeze: every mutating message afterwards (freeze repeated in the same block)
         let lines: Vec<String> = vec![
             format!("case kind={kind} scripted freeze-info"),
             format!("block h=100 t={t0}"),
@@ -1524,6 +2074,8 @@ fn scripted(ses: &mut Session, sut: &mut S) {
             "uci s=10 funds=- direct=0 desc=2:512 image=1 ext=11 ec=1 roy=- creator=-".into(),
             "uci s=10 funds=- direct=0 desc=- image=2 ext=- ec=- roy=- creator=-".into(),
             "uci s=10 funds=- direct=0 desc=- image=- ext=3 ec=- roy=- creator=-".into(),
+            "uci s=30 funds=- direct=0 desc=3:10 image=- ext=- ec=- roy=- creator=30".into(),
+            format!("uci s={STUB_A} funds=- direct=0 desc=3:10 image=- ext=- ec=- roy=- creator=-"),
             format!("uci s=10 funds=- direct=0 desc=- image=- ext=- ec=- roy=41:{} creator=-", 6 * p),
             format!("block h=101 t={}", t0 + day - 1),
             format!("uci s=10 funds=- direct=0 desc=- image=- ext=- ec=- roy=41:{} creator=-", 6 * p),
@@ -1533,6 +2085,7 @@ fn scripted(ses: &mut Session, sut: &mut S) {
             "uci s=10 funds=- direct=1 desc=- image=- ext=none ec=- roy=none creator=11".into(),
             "freeze s=10 funds=-".into(),
             "freeze s=30 funds=-".into(),
+            "freeze s=11 funds=-".into(),
             "freeze s=11 funds=-".into(),
             format!("block h=103 t={}", t0 + 3 * day),
             "uci s=11 funds=- direct=0 desc=5:10 image=5 ext=0 ec=1 roy=40:0 creator=10".into(),
@@ -1546,11 +2099,15 @@ fn scripted(ses: &mut Session, sut: &mut S) {
             "transfer s=20 funds=- to=22 id=1".into(),
             "burn s=21 funds=- id=2".into(),
             "extension s=11 funds=-".into(),
-            "migrate".into(),
+            "migrate to=updatable".into(),
             "uci s=11 funds=- direct=0 desc=5:10 image=- ext=- ec=- roy=- creator=-".into(),
-            "migrate".into(),
+            "migrate to=updatable".into(),
+            "setver v=3.0.5".into(),
+            format!("migrate to={kind}"),
+            "migrate to=updatable".into(),
+            "uci s=11 funds=- direct=0 desc=5:10 image=- ext=- ec=- roy=- creator=-".into(),
         ];
-        ses.run_case(sut, &lines);
+        run_lines(ses, sut, &lines);
         // 3. approvals / operators with exact expiry instants
         let lines: Vec<String> = vec![
             format!("case kind={kind} scripted approvals"),
@@ -1583,10 +2140,13 @@ fn scripted(ses: &mut Session, sut: &mut S) {
             "burn s=21 funds=- id=2".into(),
             "burn s=20 funds=- id=2".into(),
             "burn s=20 funds=- id=2".into(),
+            "transfer s=21 funds=- to=22 id=3".into(),
+            "burn s=30 funds=- id=3".into(),
             "burn s=21 funds=- id=3".into(),
+            "burn s=22 funds=- id=3".into(),
         ];
-        ses.run_case(sut, &lines);
-        // 4. token metadata (updatable; the others must reject all three messages)
+        run_lines(ses, sut, &lines);
+        // 4. token metadata (updatable; the others must reject all three messages); burn + re-mint after the freeze
         let fee = 1_500_000_000u128;
         let lines: Vec<String> = vec![
             format!("case kind={kind} scripted token-metadata"),
@@ -1603,15 +2163,70 @@ fn scripted(ses: &mut Session, sut: &mut S) {
             "freeze_meta s=20 funds=-".into(),
             "freeze_meta s=10 funds=0:1".into(),
             "freeze_meta s=10 funds=-".into(),
+            "freeze_meta s=10 funds=-".into(),
             "utm s=10 funds=- id=1 uri=34".into(),
             "burn s=20 funds=- id=1".into(),
             format!("mint s={STUB_A} funds=- id=1 owner=20 uri=35 ext=0"),
             "utm s=10 funds=- id=1 uri=36".into(),
             "freeze_meta s=10 funds=-".into(),
-            "migrate".into(),
+            "migrate to=updatable".into(),
             "utm s=10 funds=- id=1 uri=37".into(),
         ];
-        ses.run_case(sut, &lines);
+        run_lines(ses, sut, &lines);
+        // 6. upgrades: a collection instantiated by an OLDER release is migrated after both freezes. The metadata freeze
+        //    must survive an ACCEPTED sg721-updatable -> sg721-updatable migration (flags are re-initialised only when coming
+        //    from sg721-base); stored versions at the code version -1/0/+1, around the inline 3.1.0 / 3.0.0 thresholds, below
+        //    the earliest compatible version; the other three codes as targets.
+        let cv = code_version(sut, if kind == "base" { "updatable" } else { kind });
+        let lines: Vec<String> = vec![
+            format!("case kind={kind} scripted upgrades"),
+            format!("block h=100 t={t0}"),
+            inst.clone(),
+            format!("mint s={STUB_A} funds=- id=1 owner=20 uri=1 ext=0"),
+            "utm s=10 funds=- id=1 uri=31".into(),
+            "freeze_meta s=10 funds=-".into(),
+            "freeze s=10 funds=-".into(),
+            format!("migrate to={kind}"),
+            format!("setver v={}", ver_below(cv)),
+            "migrate to=updatable".into(),
+            "utm s=10 funds=- id=1 uri=37".into(),
+            "uci s=10 funds=- direct=0 desc=5:10 image=- ext=- ec=- roy=- creator=-".into(),
+            "migrate to=updatable".into(),
+            format!("setver v={}.{}.{}", cv.0, cv.1, cv.2 + 1),
+            "migrate to=updatable".into(),
+            format!("migrate to={kind}"),
+            "setver v=3.1.0".into(),
+            format!("block h=101 t={}", t0 + 3 * day),
+            "migrate to=updatable".into(),
+            "setver v=3.0.9".into(),
+            "migrate to=updatable".into(),
+            "utm s=10 funds=- id=1 uri=38".into(),
+            format!("uci s=10 funds=- direct=0 desc=- image=- ext=- ec=- roy=41:{} creator=-", 6 * p),
+            "setver v=3.0.0".into(),
+            format!("migrate to={kind}"),
+            format!("migrate to={kind}"),
+            "setver v=2.9.9".into(),
+            "migrate to=updatable".into(),
+            format!("migrate to={kind}"),
+            "setver v=0.16.0".into(),
+            "migrate to=updatable".into(),
+            "setver v=0.15.9".into(),
+            "migrate to=updatable".into(),
+            format!("migrate to={kind}"),
+            "setver v=99.0.0".into(),
+            "migrate to=updatable".into(),
+            "setver v=3.15.0".into(),
+            "migrate to=onchain".into(),
+            "migrate to=nt".into(),
+            "migrate to=base".into(),
+            "utm s=10 funds=- id=1 uri=39".into(),
+            "enable s=10 funds=0:1500000000".into(),
+            "utm s=10 funds=- id=1 uri=40".into(),
+            format!("mint s={STUB_A} funds=- id=2 owner=21 uri=2 ext=0"),
+            "mint s=10 funds=- id=3 owner=21 uri=2 ext=0".into(),
+            "transfer s=20 funds=- to=22 id=1".into(),
+        ];
+        run_lines(ses, sut, &lines);
     }
     // 5. sg721-base migrated to sg721-updatable: EnableUpdatable fee boundaries
     let fee = 1_500_000_000u128;
@@ -1621,7 +2236,7 @@ fn scripted(ses: &mut Session, sut: &mut S) {
         format!("inst s={STUB_A} funds=- minter={STUB_A} creator=10 desc=1:40 image=0 ext=- ec=- stt=- roy=-"),
         format!("mint s={STUB_A} funds=- id=1 owner=20 uri=1 ext=0"),
         "utm s=10 funds=- id=1 uri=31".into(),
-        "migrate".into(),
+        "migrate to=updatable".into(),
         "utm s=10 funds=- id=1 uri=31".into(),
         format!("enable s=20 funds=0:{fee}"),
         format!("enable s=10 funds=0:{}", fee - 1),
@@ -1635,35 +2250,124 @@ fn scripted(ses: &mut Session, sut: &mut S) {
         "freeze_meta s=10 funds=-".into(),
         "utm s=10 funds=- id=1 uri=32".into(),
     ];
-    ses.run_case(sut, &lines);
+    run_lines(ses, sut, &lines);
+    // 7. migration from a release below 3.1.0 in a block whose time is 24 h - 1 ns / exactly 24 h (the royalty timestamp is
+    //    rewound by `minus_seconds`, which panics on underflow = failed transaction)
+    let lines: Vec<String> = vec![
+        "case kind=base scripted migrate-early-clock".into(),
+        format!("block h=5 t={}", day - 1),
+        format!("inst s={STUB_A} funds=- minter={STUB_A} creator=10 desc=1:40 image=0 ext=- ec=- stt=- roy=-"),
+        format!("mint s={STUB_A} funds=- id=1 owner=20 uri=1 ext=0"),
+        "freeze s=10 funds=-".into(),
+        "setver v=3.0.5".into(),
+        "migrate to=updatable".into(),
+        format!("block h=6 t={day}"),
+        "migrate to=updatable".into(),
+        "uci s=10 funds=- direct=0 desc=5:10 image=- ext=- ec=- roy=- creator=-".into(),
+        format!("mint s={STUB_A} funds=- id=1 owner=20 uri=1 ext=0"),
+        format!("mint s={STUB_A} funds=- id=2 owner=20 uri=1 ext=0"),
+    ];
+    run_lines(ses, sut, &lines);
+    // 8. more tokens than one page of AllTokens (default 10, explicit 100): count = number of existing tokens
+    for kind in ["base", "nt"] {
+        let mut lines: Vec<String> = vec![
+            format!("case kind={kind} scripted paging"),
+            format!("block h=100 t={t0}"),
+            format!("inst s={STUB_A} funds=- minter={STUB_A} creator=10 desc=1:40 image=0 ext=- ec=- stt=- roy=-"),
+        ];
+        for i in 1..=103u64 {
+            lines.push(format!("mint s={STUB_A} funds=- id={i} owner={} uri=- ext=0", 20 + i % 4));
+        }
+        lines.push(format!("mint s={STUB_A} funds=- id=100 owner=20 uri=- ext=0"));
+        lines.push("burn s=21 funds=- id=101".into());
+        lines.push("burn s=20 funds=- id=101".into());
+        lines.push("burn s=20 funds=- id=100".into());
+        lines.push(format!("mint s={STUB_A} funds=- id=101 owner=22 uri=- ext=0"));
+        run_lines(ses, sut, &lines);
+    }
+    // 9. message variants the protocol has no name for (found in a schema at start-up; none on the unchanged tree): every role
+    //    sends them, before and after the freezes, on a collection with tokens
+    let sf = sut.sf.clone();
+    for kind in KINDS {
+        for v in sf.unknown.get(kind).cloned().unwrap_or_default() {
+            let mut lines: Vec<String> = vec![
+                format!("case kind={kind} scripted raw-{v}"),
+                format!("block h=100 t={t0}"),
+                format!("inst s={STUB_A} funds=- minter={STUB_A} creator=10 desc=1:40 image=0 ext=- ec=- stt=- roy=-"),
+                format!("mint s={STUB_A} funds=- id=1 owner=20 uri=1 ext=0"),
+                format!("mint s={STUB_A} funds=- id=2 owner=21 uri=2 ext=0"),
+            ];
+            for round in 0..2 {
+                for s in [STRANGER, 20, 21, 10, STUB_A, STUB_B] {
+                    for k in 1..=2 {
+                        lines.push(format!("raw s={s} funds=- v={v} k={k}"));
+                    }
+                }
+                if round == 0 {
+                    lines.push("freeze s=10 funds=-".into());
+                    lines.push("freeze_meta s=10 funds=-".into());
+                }
+            }
+            run_lines(ses, sut, &lines);
+        }
+    }
     ses.mark("scripted:all");
 }
 
 fn main() {
     let mut ses = Session::new("C09");
-    let mut sut = S::new();
+    let sf = Surface::load();
+    let mut sut = S::new(sf.clone());
     if ses.maybe_replay(&mut sut) {
         ses.finish(&mut sut);
     }
-    let mut g = G { rng: ses.rng.fork(), h: 100, t: T0 };
-    surface_check(&mut ses);
+    let mut g = G { rng: ses.rng.fork(), h: 100, t: T0, sf: sf.clone() };
+    surface_check(&mut ses, &sf);
     scripted(&mut ses, &mut sut);
-    let kinds = ["base", "nt", "updatable", "onchain"];
-    let per_kind = ses.scale(250, 3000);
-    for kind in kinds {
+    let per_kind = ses.scale(500, 6000);
+    for kind in KINDS {
         for i in 0..per_kind {
             let n_ops = 30 + g.rng.below(60);
             random_case(&mut ses, &mut sut, &mut g, kind, n_ops, &format!("random i={i}"));
         }
     }
     let depth = if ses.tier() == Tier::Thorough { 3 } else { 2 };
-    for kind in kinds {
+    for kind in KINDS {
         exhaustive(&mut ses, &mut sut, kind, depth);
     }
+    // ---- coverage floor: without these the run would be vacuous for a clause of the property
+    ses.require("scripted:all");
+    for kind in KINDS {
+        for c in [
+            "mint-ok", "mint-non-minter-rejected", "mint-dup-rejected", "burn-ok", "burn-non-owner-rejected", "freeze-ok", "freeze-non-creator-rejected",
+            "uci-ok", "uci-after-freeze-rejected", "uci-non-creator-rejected", "migrate-rejected",
+        ] {
+            ses.require(format!("req:{kind}:{c}"));
+        }
+        ses.require(format!("surface:{kind}:variants:"));
+    }
+    for kind in ["base", "onchain"] {
+        for c in ["handover-proposed", "handover-accepted", "accept-expired-rejected", "accept-not-proposed-rejected", "renounce-ok", "transfer-ok"] {
+            ses.require(format!("req:{kind}:{c}"));
+        }
+    }
+    for c in [
+        "utm-ok", "utm-after-freeze-rejected", "utm-non-creator-rejected", "freeze-meta-ok", "migrate-ok-with-frozen-metadata", "migrate-ok-with-frozen-info",
+        "migrate-upgrade-ok", "migrate-ok-from-below-3.1.0", "transfer-ok",
+    ] {
+        ses.require(format!("req:updatable:{c}"));
+    }
+    for c in ["migrate-ok", "migrate-ok-with-frozen-info", "migrate-ok-from-below-3.1.0", "more-than-100-tokens"] {
+        ses.require(format!("req:base:{c}"));
+    }
+    ses.require("req:onchain:migrate-upgrade-ok");
+    ses.require("req:nt:transfer-by-owner-rejected");
+    ses.require("req:nt:more-than-100-tokens");
     ses.note(format!(
-        "4 collections x (scripted boundary scenarios, {per_kind} random histories of 30-90 messages, every message sequence of length {depth} over a 19-line alphabet); contract panics (Extension todo!()) caught: {}",
+        "4 collections x (scripted boundary scenarios incl. upgrades from older stored versions, {per_kind} random histories of 30-90 messages, every message sequence of length {depth} over a 21-line alphabet); contract panics (Extension todo!(), minus_seconds underflow) caught: {}",
         sut.panics
     ));
     ses.note("senders: minter stubs (forwarding sub-messages), creators, holders, approved spenders, operators, pending owner, strangers; clock steps to expiry/24h instants -1/0/+1; zero-amount coins are not generated (cw-multi-test bank drops them)");
+    ses.note("monitors compare the contract's answers with the harness's own bookkeeping (minter, proposed minter + expiry, creator, accepted freezes, ids alive and their mint recipients), not with earlier answers of the contract");
     ses.finish(&mut sut);
 }
